@@ -1,10 +1,19 @@
 (** Proofs about the whole-tree state machine (Model/Machine.v):
-    1. [build_tables_ok]: what the MultiWriter produces from a sorted stream is a legal run;
-    2. [machine_inv]: every reachable state satisfies the history invariant [hinv] and the
-       structural invariant [check_inv_sv] of the latest superversion (plus bookkeeping);
-    3. [machine_top_view] / [machine_point_reads]: without weak tombstones, a point read of
-       the latest superversion at the newest snapshot returns exactly what the ordered-map
-       Spec returns on the log of all writes (property C01 for the model, unbounded). *)
+    1. [build_tables_ok] (section 1): what the MultiWriter produces from a sorted stream is
+       a legal run;
+    2. [machine_inv] / [machine_minv] (sections 2-5, 10): every reachable state satisfies
+       the history invariant [hinv] and the structural invariant [check_inv_sv] of the
+       latest superversion, plus bookkeeping (id counters, seqnos, write log);
+    3. [machine_top_view_key] / [machine_top_view] / [machine_point_reads] (sections 6-10):
+       a key that is never weak-deleted reads, in the latest superversion at the newest
+       snapshot, exactly what the ordered-map Spec returns on the log of all writes
+       (property C01 for the model, unbounded);
+    4. stretch: [major_choice_ok] (section 12): a major compaction is always legal;
+       [machine_weak_view] / [machine_weak_reads] (section 13): the same read guarantee
+       for keys under the single-delete discipline; [machine_reads_mixed] (section 14);
+    refutations: [EvictExample.evict_ok_dest_level_only_refuted] (tombstone eviction needs
+    a check over ALL levels), [WeakExample.weak_without_contiguity_refuted] (a compaction
+    must take a contiguous part of a single-deleted key's history). *)
 From LsmV Require Import Proofs.Newest Proofs.Lookup Proofs.Stream Proofs.Version
      Proofs.Snapshot.
 From LsmV Require Import Model.Machine.
@@ -971,3 +980,1649 @@ Proof.
     destruct RM as [Rk _]. specialize (HR r RI Rk). apply N.ltb_lt in HR. now rewrite HR.
   - cbn [visible]. now rewrite TB.
 Qed.
+
+(** * 7. The stream keeps the newest version of a key, or evicts its tombstone *)
+
+Lemma emit_dec_noevict W h rest :
+  is_weak_tomb h = false -> fst (emit_dec W false h rest) = true.
+Proof.
+  intros NW. unfold emit_dec. destruct rest as [|p r].
+  - cbn [fst]. now rewrite andb_false_r.
+  - destruct (key_ltb (ukey h) (ukey p)); [cbn [fst]; now rewrite andb_false_r|].
+    destruct (seq p <? W); [|reflexivity]. rewrite andb_false_r, NW, andb_false_r. reflexivity.
+Qed.
+
+(** For a key [k] without weak tombstones and a snapshot above all its versions: the
+    stream output has the same newest version of [k] as the input, or ([evict] only) that
+    version was a tombstone and NO version of [k] is left in the output. *)
+Lemma top_exact W evict k S : forall l dr,
+  ssorted l = true -> dr_ok dr l -> dr_nok k dr l ->
+  (forall e, In e l -> ukey e = k -> seq e < S) ->
+  (forall x, In x l -> ukey x = k -> is_weak_tomb x = false) ->
+  newest k S (outs W evict no_filter dr l) = newest k S l \/
+  (evict = true /\ (exists t, newest k S l = Some t /\ is_tomb t = true) /\
+   forall h, In h (outs W evict no_filter dr l) -> ukey h <> k).
+Proof.
+  induction l as [|e rest IH]; intros dr HS OK ND HSn NW; [left; reflexivity|].
+  pose proof (ssorted_tail _ _ HS) as HS'.
+  assert (forall x, In x rest -> ukey x = k -> seq x < S) as HSn'
+      by (intros x HI; apply HSn; now right).
+  assert (forall x, In x rest -> ukey x = k -> is_weak_tomb x = false) as NW'
+      by (intros x HI; apply NW; now right).
+  rewrite outs_cons, apply_filter_no_filter. cbn [fst].
+  destruct (draining evict dr e) eqn:D.
+  - assert (ukey e <> k) as NE.
+    { destruct dr as [|k'|]; [discriminate| |exact ND].
+      apply draining_key in D. cbn in ND. congruence. }
+    rewrite (newest_cons_nokey k S e rest NE).
+    apply IH; auto; [eapply dr_ok_tail; eauto|eapply dr_nok_after; eauto].
+  - destruct (emit_dec_inv W evict e e rest HS eq_refl) as (OK' & _ & DN).
+    destruct (key_eq_dec (ukey e) k) as [E|NE].
+    + assert (newest k S (e :: rest) = Some e) as R.
+      { apply newest_head; [exact E|apply HSn; [now left|exact E]|].
+        intros x XI Xk. eapply ssorted_same_key_seq; eauto. congruence. }
+      rewrite R.
+      destruct (fst (emit_dec W evict e rest)) eqn:B; unfold olist; cbn [app].
+      * left. apply newest_head; [exact E|apply HSn; [now left|exact E]|].
+        intros x XI Xk. apply (subseq_incl _ _ (outs_subseq W evict rest _)) in XI.
+        eapply ssorted_same_key_seq; eauto. congruence.
+      * assert (evict = true) as EV.
+        { destruct evict; [reflexivity|]. rewrite emit_dec_noevict in B; [discriminate|].
+          apply NW; [now left|exact E]. }
+        destruct (emit_dec_false W evict e e rest HS eq_refl B) as [TB Hno].
+        right. split; [exact EV|]. split; [exists e; auto|].
+        destruct Hno as [[Hd Hev]|[Hgt|[_ Hw]]].
+        -- intros x XI. rewrite Hd in XI, OK'. subst evict. rewrite <- E.
+           eapply drain_no_key; eauto.
+        -- intros x XI Xk. apply (subseq_incl _ _ (outs_subseq W evict rest _)) in XI.
+           specialize (Hgt x XI). rewrite Xk, E in Hgt. now apply key_lt_irrefl in Hgt.
+        -- rewrite (NW e) in Hw; [discriminate|now left|exact E].
+    + rewrite (newest_cons_nokey k S e rest NE).
+      assert (dr_nok k (snd (emit_dec W evict e rest)) rest) as ND'.
+      { destruct (emit_dec_dr W evict e rest) as [Hd|[Hd|Hd]]; rewrite Hd; cbn; auto.
+        destruct (DN Hd) as (_ & p & r & -> & Ep & _). congruence. }
+      destruct (IH (snd (emit_dec W evict e rest)) HS' OK' ND' HSn' NW')
+        as [IH'|(EV & Ht & Hno)].
+      * left. unfold olist. destruct (fst (emit_dec W evict e rest)); cbn [app]; [|exact IH'].
+        rewrite newest_cons_nokey; auto.
+      * right. split; [exact EV|]. split; [exact Ht|]. intros h HI.
+        apply in_app_or in HI. destruct HI as [HI|HI]; [|auto].
+        unfold olist in HI. destruct (fst (emit_dec W evict e rest)); [|destruct HI].
+        destruct HI as [<-|[]]. exact NE.
+Qed.
+
+(** the same for the output of [run_stream] *)
+Lemma run_stream_top W evict l k S :
+  sorted_b l = true ->
+  (forall e, In e l -> ukey e = k -> seq e < S) ->
+  (forall x, In x l -> ukey x = k -> ty x <> WeakTomb) ->
+  let out := fst (run_stream W evict no_filter l) in
+  newest k S out = newest k S l \/
+  (evict = true /\ (exists t, newest k S l = Some t /\ is_tomb t = true) /\
+   forall h, In h out -> ukey h <> k).
+Proof.
+  intros HS HSn NW out. rewrite <- ssorted_eq in HS.
+  apply (top_exact W evict k S l NoDrain HS I I HSn).
+  intros x HI Hk. specialize (NW x HI Hk). unfold is_weak_tomb.
+  destruct (ty x); try reflexivity. congruence.
+Qed.
+
+(** * 8. The top view is preserved when a part of the content goes through the stream *)
+
+(** no version of key [k] is a weak tombstone *)
+Definition noweak_k (k : key) (l : list entry) : Prop :=
+  forall e, In e l -> ukey e = k -> ty e <> WeakTomb.
+
+(** [C] = [I] + [R] becomes [C'] = [O] + [R] where [O] is the stream output on the sorted
+    input [I]; under eviction, a key that vanishes from [O] has nothing older in [R] *)
+Lemma replace_view W evict C C' I R k S :
+  uniq C -> uniq C' ->
+  sorted_b I = true ->
+  Permutation C (I ++ R) ->
+  Permutation C' (fst (run_stream W evict no_filter I) ++ R) ->
+  (forall e, In e C -> seq e < S) -> noweak_k k C ->
+  (evict = true -> forall e, In e I ->
+     (forall h, In h (fst (run_stream W evict no_filter I)) -> ukey h <> ukey e) ->
+     forall r, In r R -> ukey r = ukey e -> seq e < seq r) ->
+  visible (newest k S C') = visible (newest k S C).
+Proof.
+  intros U U' HS P P' HSn NW EV.
+  set (O := fst (run_stream W evict no_filter I)) in *.
+  assert (forall e, In e I -> In e C) as HIC.
+  { intros e He. eapply Permutation_in; [apply Permutation_sym; exact P|].
+    apply in_or_app. now left. }
+  rewrite (newest_perm k S C (I ++ R) U P), (newest_perm k S C' (O ++ R) U' P').
+  pose proof (uniq_perm _ _ P U) as U1. pose proof (uniq_perm _ _ P' U') as U2.
+  destruct (run_stream_top W evict I k S HS) as [E|(Ev & (t & Et & TB) & Hno)].
+  - intros e He _. apply HSn. auto.
+  - intros x Hx Kx. apply NW; auto.
+  - fold O in E. f_equal. now apply newest_replace_eq.
+  - fold O in Hno. destruct (newest_some _ _ _ _ Et) as [TI TM].
+    apply matches_iff in TM. destruct TM as [Tk _].
+    apply (newest_replace_evict k S I O R t U1 U2 Et TB).
+    + apply newest_nokey. exact Hno.
+    + intros r Hr Rk. apply (EV Ev t TI); [|exact Hr|congruence].
+      intros h Hh. rewrite Tk. now apply Hno.
+Qed.
+
+(** what readers of the latest superversion see, against the write log *)
+Definition tview (k : key) (st : mstate) (l : superversion) : Prop :=
+  forall S, ctr (hs st) <= S ->
+    visible (newest k S (content l)) = visible (newest k S (wlog st)).
+
+Lemma NoDup_seq_uniq l : NoDup (map seq l) -> uniq l.
+Proof.
+  induction l as [|x l IH]; intros ND e1 e2 H1 H2 Ek Es; [contradiction|].
+  cbn [map] in ND. inversion ND as [|? ? NI ND']; subst.
+  destruct H1 as [->|H1], H2 as [->|H2]; auto.
+  - exfalso. apply NI. rewrite Es. now apply in_map.
+  - exfalso. apply NI. rewrite <- Es. now apply in_map.
+  - apply IH; auto.
+Qed.
+
+Lemma mem_entries_In sv e :
+  In e (mem_entries sv) <-> exists c, In c (memc sv) /\ In e c.
+Proof.
+  unfold mem_entries, memc. rewrite in_app_iff, in_concat. split.
+  - intros [H|(c & Hc & He)]; [exists (ments (active sv)); split; [now left|exact H]|].
+    exists c. split; [now right|exact He].
+  - intros (c & [<-|Hc] & He); [now left|right; eauto].
+Qed.
+
+(** * 9. The top-view invariant along the machine *)
+
+Definition tvinv (k : key) (st : mstate) : Prop :=
+  noweak_k k (wlog st) /\ forall l, latest (hist (hs st)) = Some l -> tview k st l.
+
+Lemma minv_latest_uniq st l : minv st -> latest (hist (hs st)) = Some l -> uniq (content l).
+Proof.
+  intros [_ _ (l0 & L0 & Hl)] L. rewrite L in L0. inversion L0; subst l0.
+  apply content_uniq. apply Hl.
+Qed.
+
+Lemma upgrade_maint_latest h f l W :
+  latest (hist h) = Some l ->
+  latest (hist (hstep (hstep h (HUpgrade f)) (HMaint W))) = Some (sv_with_seq (ctr h) (f l)) /\
+  ctr (hstep (hstep h (HUpgrade f)) (HMaint W)) = ctr h + 1.
+Proof.
+  intros L. destruct (hstep_upgrade_latest h f l L) as [L1 C1].
+  destruct (hstep_maint_latest (hstep h (HUpgrade f)) W) as [L2 C2].
+  rewrite L2, C2. auto.
+Qed.
+
+(** ** 9.1 write *)
+Lemma tvinv_write k0 st k t v :
+  minv st -> tvinv k0 st -> mop_ok st (MWrite k t v) = true -> (k = k0 -> t <> WeakTomb) ->
+  tvinv k0 (mstep st (MWrite k t v)).
+Proof.
+  intros M [NW TV] OK NT. pose proof (minv_write st k t v M OK) as M'.
+  pose proof M as [Ih Iw (l & L & Hl)]. specialize (TV l L).
+  revert M'. unfold mstep. rewrite L. set (e := mkE k (ctr (hs st)) t v). intros M'.
+  destruct (hstep_write_latest (hs st) e l L) as [L' C'].
+  rewrite (sv_write_latest l e (li_act _ _ Hl)) in L'.
+  split; cbn [wlog hs].
+  - intros x [<-|Hx] Kx; [now apply NT|now apply NW].
+  - intros l' Ll'. pose proof (minv_latest_uniq _ _ M' Ll') as U'. cbn [hs] in Ll'.
+    rewrite L' in Ll'. inversion Ll'; subst l'. clear Ll'.
+    intros S HS. cbn [hs wlog] in *. rewrite C' in HS.
+    set (l' := mkSV (sv_seq l) _ (sealed l) (ver l)) in *.
+    assert (Permutation (content l') (e :: content l)) as P.
+    { rewrite !content_split. unfold mem_entries, l'. cbn [active sealed ver ments].
+      change (e :: (ments (active l) ++ concat (map ments (rev (sealed l)))) ++
+                   concat (map ents (all_tables (ver l))))
+        with (((e :: ments (active l)) ++ concat (map ments (rev (sealed l)))) ++
+                   concat (map ents (all_tables (ver l)))).
+      do 2 apply Permutation_app_tail. apply mt_insert_perm.
+      intros x Hx. cbn [seq e]. eapply linv_content_seq; eauto. now apply In_content_active. }
+    rewrite (newest_perm k0 S _ _ U' P).
+    destruct (key_eq_dec k k0) as [E|NE].
+    + rewrite !newest_head; auto; cbn [seq ukey e]; try lia.
+      * intros x Hx _. apply (wi_seq _ Iw x Hx).
+      * intros x Hx _. eapply linv_content_seq; eauto.
+    + rewrite !newest_cons_nokey by exact NE. apply TV. lia.
+Qed.
+
+(** ** 9.2 rotate, history GC, move: the content is the same bag *)
+Lemma tview_same_bag k st st' l l' :
+  uniq (content l') -> Permutation (content l') (content l) ->
+  wlog st' = wlog st -> ctr (hs st) <= ctr (hs st') ->
+  tview k st l -> tview k st' l'.
+Proof.
+  intros U P EW HC TV S HS. rewrite (newest_perm k S _ _ U P), EW. apply TV. lia.
+Qed.
+
+Lemma tvinv_rotate k st : minv st -> tvinv k st -> tvinv k (mstep st MRotate).
+Proof.
+  intros M [NW TV]. pose proof (minv_rotate st M) as M'.
+  pose proof M as [Ih Iw (l & L & Hl)]. specialize (TV l L).
+  revert M'. unfold mstep. rewrite L.
+  destruct (ments (active l)) as [|a0 ar] eqn:EA.
+  { intros _. split; [exact NW|]. intros l' Ll'. rewrite L in Ll'. now inversion Ll'; subst. }
+  intros M'. destruct (hstep_rotate_latest (hs st) (next_mid st) l L) as [L' C'];
+    [rewrite EA; discriminate|].
+  split; [exact NW|]. intros l' Ll'. pose proof (minv_latest_uniq _ _ M' Ll') as U'.
+  cbn [hs] in Ll'. rewrite L' in Ll'. inversion Ll'; subst l'. clear Ll'.
+  apply (tview_same_bag k st _ l _ U'); cbn [hs wlog]; [|reflexivity|lia|exact TV].
+  unfold content, containers, sv_rotate. cbn [active sealed ver ments].
+  rewrite rev_app_distr. apply Permutation_refl.
+Qed.
+
+Lemma tvinv_maint k st W : minv st -> tvinv k st -> tvinv k (mstep st (MMaint W)).
+Proof.
+  intros M [NW TV]. pose proof M as [Ih Iw (l & L & Hl)].
+  unfold mstep. rewrite L. destruct (hstep_maint_latest (hs st) W) as [L' C'].
+  split; [exact NW|]. intros l' Ll'. cbn [hs] in Ll'. rewrite L' in Ll'.
+  intros S HS. cbn [hs wlog] in *. rewrite C' in HS. now apply TV.
+Qed.
+
+Lemma tvinv_move k st ids dest :
+  minv st -> tvinv k st -> mop_ok st (MMove ids dest) = true ->
+  tvinv k (mstep st (MMove ids dest)).
+Proof.
+  intros M [NW TV] OK. pose proof (minv_move st ids dest M OK) as M'.
+  pose proof M as [Ih Iw (l & L & Hl)]. specialize (TV l L).
+  unfold mop_ok in OK. rewrite L in OK. rewrite !andb_true_iff in OK.
+  destruct OK as [[[[[SA _] _] _] HD] MC].
+  destruct (sv_inv_elim l (li_inv _ _ Hl)) as (_ & _ & HV & _ & _).
+  revert M'. unfold mstep. rewrite L. intros M'.
+  destruct (hstep_upgrade_latest (hs st) (sv_moved ids dest) l L) as [L' C'].
+  split; [exact NW|]. intros l' Ll'. pose proof (minv_latest_uniq _ _ M' Ll') as U'.
+  cbn [hs] in Ll'. rewrite L' in Ll'. inversion Ll'; subst l'. clear Ll'.
+  apply (tview_same_bag k st _ l _ U'); cbn [hs wlog]; [|reflexivity|lia|exact TV].
+  rewrite content_with_seq, !content_split. unfold sv_moved, mem_entries.
+  cbn [active sealed ver]. apply Permutation_app_head. apply perm_concat_map_ents.
+  apply moved_tables_perm. now apply ltb_7_lt.
+Qed.
+
+(** ** 9.3 flush *)
+Lemma tvinv_flush k st W cuts :
+  minv st -> tvinv k st -> mop_ok st (MFlush W cuts) = true ->
+  tvinv k (mstep st (MFlush W cuts)).
+Proof.
+  intros M [NW TV] OK. pose proof (minv_flush st W cuts M OK) as M'.
+  pose proof M as [Ih Iw (l & L & Hl)]. specialize (TV l L).
+  unfold mop_ok in OK. rewrite L in OK. apply andb_true_iff in OK. destruct OK as [SA HC].
+  revert M'. unfold mstep. rewrite L.
+  destruct (sealed l) as [|m0 ms] eqn:ES.
+  { intros _. split; [exact NW|]. intros l' Ll'. rewrite L in Ll'. now inversion Ll'; subst. }
+  rewrite <- ES. clear m0 ms ES.
+  destruct (flush_facts st l W Iw Hl) as (HSm & HSo & SUB & PM & Hin).
+  destruct (sv_inv_elim l (li_inv _ _ Hl)) as (S1 & S2 & HV & R1 & R2).
+  set (out := flush_out W l) in *.
+  set (tables := build_tables (next_tid st) cuts out).
+  set (f := sv_flushed (map mid (sealed l)) tables).
+  intros M'. destruct (upgrade_maint_latest (hs st) f l W L) as [L' C'].
+  split; [exact NW|]. intros l' Ll'. pose proof (minv_latest_uniq _ _ M' Ll') as U'.
+  cbn [hs] in Ll'. rewrite L' in Ll'. inversion Ll'; subst l'. clear Ll'.
+  intros S HS. cbn [hs wlog] in *. rewrite C' in HS.
+  rewrite <- (TV S) by lia.
+  set (A := ments (active l)) in *.
+  set (T := concat (map ents (all_tables (ver l)))).
+  set (merged := merge_sorted (map ments (sealed l))) in *.
+  apply (replace_view W false (content l) _ merged (A ++ T) k S).
+  - apply content_uniq. apply Hl.
+  - exact U'.
+  - exact HSm.
+  - rewrite content_split. unfold mem_entries. fold A T. rewrite <- app_assoc.
+    eapply perm_trans; [apply Permutation_app_swap_app|].
+    apply Permutation_app_tail. apply Permutation_sym. exact PM.
+  - rewrite content_with_seq, content_split. unfold f, sv_flushed, mem_entries.
+    cbn [active sealed ver]. rewrite remove_sealed_all. cbn [rev map concat]. fold A.
+    rewrite app_nil_r. fold out.
+    eapply perm_trans; [|apply Permutation_app_swap_app]. apply Permutation_app_head.
+    eapply perm_trans.
+    { apply perm_concat_map_ents. apply new_l0_tables_perm. now apply levels_nonempty. }
+    rewrite map_app, concat_app. fold T. apply Permutation_app_tail.
+    destruct (build_tables_gen cuts (next_tid st) out HSo HC) as (_ & _ & I3 & _).
+    fold tables in I3. rewrite I3. apply Permutation_refl.
+  - intros e He. pose proof (linv_content_seq _ _ _ Iw Hl He). lia.
+  - intros e He Ke. apply NW; [now apply (li_log _ _ Hl)|exact Ke].
+  - discriminate.
+Qed.
+
+(** ** 9.4 compaction *)
+Lemma evict_ok_spec v ids merged out e r t :
+  evict_ok v ids merged out = true ->
+  In e merged -> (forall h, In h out -> ukey h <> ukey e) ->
+  In t (kept ids (all_tables v)) -> In r (ents t) -> ukey r = ukey e -> seq e < seq r.
+Proof.
+  unfold evict_ok. intros H He Hno Ht Hr Ek. rewrite forallb_forall in H.
+  specialize (H e He). apply orb_true_iff in H. destruct H as [H|H].
+  - unfold key_in in H. apply existsb_exists in H. destruct H as (h & Hh & E).
+    key_prop. exfalso. now apply (Hno h Hh).
+  - rewrite forallb_forall in H. specialize (H t Ht). rewrite forallb_forall in H.
+    specialize (H r Hr). apply orb_true_iff in H. destruct H as [H|H].
+    + apply negb_true_iff in H. key_prop. contradiction.
+    + now apply N.ltb_lt.
+Qed.
+
+Lemma tvinv_compact k st ids dest W cuts :
+  minv st -> tvinv k st -> mop_ok st (MCompact ids dest W cuts) = true ->
+  tvinv k (mstep st (MCompact ids dest W cuts)).
+Proof.
+  intros M [NW TV] OK. pose proof (minv_compact st ids dest W cuts M OK) as M'.
+  pose proof M as [Ih Iw (l & L & Hl)]. specialize (TV l L).
+  unfold mop_ok in OK. rewrite L in OK. rewrite !andb_true_iff in OK.
+  destruct OK as [[[[[[[[SA _] _] EX] _] HD] HC] MC] EO].
+  revert M'. unfold mstep. rewrite L, EX.
+  destruct (sv_inv_elim l (li_inv _ _ Hl)) as (S1 & S2 & HV & R1 & R2).
+  destruct (compact_facts (ver l) ids W dest HV) as (HSm & HSo & SUB & PM & Hin).
+  set (out := compact_out W dest (ver l) ids) in *.
+  set (new := build_tables (next_tid st) cuts out) in *.
+  set (f := sv_merged ids new dest).
+  intros M'. destruct (upgrade_maint_latest (hs st) f l W L) as [L' C'].
+  split; [exact NW|]. intros l' Ll'. pose proof (minv_latest_uniq _ _ M' Ll') as U'.
+  cbn [hs] in Ll'. rewrite L' in Ll'. inversion Ll'; subst l'. clear Ll'.
+  intros S HS. cbn [hs wlog] in *. rewrite C' in HS.
+  rewrite <- (TV S) by lia.
+  set (Mm := mem_entries l).
+  set (K := concat (map ents (kept ids (all_tables (ver l))))).
+  set (merged := compact_merged (ver l) ids) in *.
+  assert (Permutation (concat (map ents (all_tables (ver l)))) (merged ++ K)) as PT.
+  { eapply perm_trans.
+    - apply perm_concat_map_ents. apply Permutation_sym.
+      apply (vs_perm_filter_split (id_in ids) (all_tables (ver l))).
+    - rewrite map_app, concat_app. apply Permutation_app_tail. apply Permutation_sym. exact PM. }
+  apply (replace_view W (is_last_level dest) (content l) _ merged (Mm ++ K) k S).
+  - apply content_uniq. apply Hl.
+  - exact U'.
+  - exact HSm.
+  - rewrite content_split. fold Mm.
+    eapply perm_trans; [apply Permutation_app_head; exact PT|]. apply Permutation_app_swap_app.
+  - rewrite content_with_seq, content_split. unfold f, sv_merged, mem_entries.
+    cbn [active sealed ver]. fold (mem_entries l). fold Mm.
+    change (fst (run_stream W (is_last_level dest) no_filter merged)) with out.
+    eapply perm_trans; [|apply Permutation_app_swap_app]. apply Permutation_app_head.
+    eapply perm_trans.
+    { apply perm_concat_map_ents. apply merge_tables_perm. now apply ltb_7_lt. }
+    rewrite map_app, concat_app. fold K. apply Permutation_app_tail.
+    destruct (build_tables_gen cuts (next_tid st) out HSo HC) as (_ & _ & I3 & _).
+    fold new in I3. rewrite I3. apply Permutation_refl.
+  - intros e He. pose proof (linv_content_seq _ _ _ Iw Hl He). lia.
+  - intros e He Ke. apply NW; [now apply (li_log _ _ Hl)|exact Ke].
+  - intros EV e He Hno r Hr Ek.
+    change (fst (run_stream W (is_last_level dest) no_filter merged)) with out in Hno.
+    rewrite EV in EO. cbn [negb orb] in EO.
+    apply in_app_or in Hr. destruct Hr as [Hr|Hr].
+    + apply mem_entries_In in Hr. destruct Hr as (c & Hc & Hr).
+      apply (Permutation_in _ PM) in He. apply in_concat_map_ents in He.
+      destruct He as (t0 & Ht0 & He0). apply compact_in_In in Ht0.
+      apply (R2 c t0 Hc Ht0 r e Hr He0 Ek).
+    + apply in_concat_map_ents in Hr. destruct Hr as (t0 & Ht0 & Hr).
+      eapply evict_ok_spec; eauto.
+Qed.
+
+(** ** 9.5 every step, every run *)
+Definition no_weak_write (k : key) (o : mop) : Prop :=
+  forall k' t v, o = MWrite k' t v -> k' = k -> t <> WeakTomb.
+
+Lemma tvinv_step k0 st o :
+  minv st -> tvinv k0 st -> mop_ok st o = true -> no_weak_write k0 o -> tvinv k0 (mstep st o).
+Proof.
+  intros M T OK NWW. destruct o as [k t v| |W cuts|ids dest W cuts|ids dest|W].
+  - apply tvinv_write; auto. now apply (NWW k t v).
+  - now apply tvinv_rotate.
+  - now apply tvinv_flush.
+  - now apply tvinv_compact.
+  - now apply tvinv_move.
+  - now apply tvinv_maint.
+Qed.
+
+Lemma tvinv_run k : forall ops st,
+  minv st -> tvinv k st -> mops_ok st ops = true -> (forall o, In o ops -> no_weak_write k o) ->
+  tvinv k (mrun st ops).
+Proof.
+  induction ops as [|o ops IH]; intros st M T OK NWW; [exact T|].
+  cbn [mops_ok] in OK. apply andb_true_iff in OK. destruct OK as [O1 O2].
+  cbn [mrun fold_left]. apply IH; auto.
+  - now apply minv_step.
+  - apply tvinv_step; auto. apply NWW. now left.
+  - intros o' Ho'. apply NWW. now right.
+Qed.
+
+Lemma tvinv_init k : tvinv k minit.
+Proof.
+  split; [intros e []|]. intros l L. cbn in L. inversion L; subst l.
+  intros S _. reflexivity.
+Qed.
+
+(** * 10. Main theorems *)
+
+(** Result 2.  Every state reachable from the fresh tree by legal operations satisfies the
+    history invariant; its latest superversion exists and satisfies the structural
+    invariant [check_inv_sv]; the id counters are above every id in use; everything stored
+    was written (is in [wlog]) with a seqno the counter has handed out; seqnos of writes
+    are pairwise distinct. *)
+Theorem machine_inv : forall ops, mops_ok minit ops = true ->
+  let st := mrun minit ops in
+  hinv (hs st) /\
+  (exists sv, latest (hist (hs st)) = Some sv) /\
+  (forall sv, latest (hist (hs st)) = Some sv ->
+     check_inv_sv sv = true /\
+     uniq (content sv) /\
+     (forall t, In t (all_tables (ver sv)) -> tid t < next_tid st) /\
+     (forall m, In m (all_mts sv) -> mid m < next_mid st) /\
+     (forall m, In m (sealed sv) -> mid m <> mid (active sv)) /\
+     (forall e, In e (content sv) -> In e (wlog st) /\ seq e < ctr (hs st))) /\
+  (forall e, In e (wlog st) -> seq e < ctr (hs st)) /\
+  NoDup (map seq (wlog st)) /\ uniq (wlog st) /\
+  ctr (hs st) <= SEQ_LIMIT.
+Proof.
+  intros ops OK st. pose proof (machine_minv ops OK) as M. fold st in M.
+  pose proof M as [Ih Iw (l & L & Hl)].
+  split; [exact Ih|]. split; [eauto|]. split.
+  - intros sv Lsv. rewrite L in Lsv. inversion Lsv; subst sv.
+    split; [apply Hl|]. split; [apply content_uniq; apply Hl|].
+    split; [apply Hl|]. split; [apply Hl|]. split; [apply Hl|].
+    intros e He. split; [now apply (li_log _ _ Hl)|eapply linv_content_seq; eauto].
+  - split; [apply Iw|]. split; [apply Iw|]. split; [apply NoDup_seq_uniq; apply Iw|apply Iw].
+Qed.
+
+Lemma mops_ok_app : forall ops1 ops2 st,
+  mops_ok st (ops1 ++ ops2) = true ->
+  mops_ok st ops1 = true /\ mops_ok (mrun st ops1) ops2 = true.
+Proof.
+  induction ops1 as [|o ops1 IH]; intros ops2 st H; [auto|].
+  cbn [app mops_ok mrun fold_left] in *. apply andb_true_iff in H. destruct H as [H1 H2].
+  destruct (IH _ _ H2) as [A B]. now rewrite H1, A.
+Qed.
+
+Lemma SEQ_LIMIT_le_MAX : SEQ_LIMIT <= SEQ_MAX.
+Proof. unfold SEQ_LIMIT, SEQ_MAX. lia. Qed.
+
+(** Result 3, per key and general snapshot.  A key [k] that is never written with a weak
+    tombstone (other keys may be) reads, at every snapshot [S] at or above the seqno
+    counter, in the logical content of the latest superversion exactly as in the log of
+    all writes. *)
+Theorem machine_top_view_key : forall ops k,
+  mops_ok minit ops = true ->
+  (forall t v, In (MWrite k t v) ops -> t <> WeakTomb) ->
+  let st := mrun minit ops in
+  forall sv, latest (hist (hs st)) = Some sv ->
+  forall S, ctr (hs st) <= S ->
+  spec_get (content sv) k S = spec_get (wlog st) k S.
+Proof.
+  intros ops k OK NWW st sv L S HS.
+  assert (tvinv k st) as [_ TV].
+  { apply tvinv_run; auto using minv_init, tvinv_init.
+    intros o Ho k0 t v E Ek. subst o k0. eauto. }
+  unfold spec_get. now apply (TV sv L).
+Qed.
+
+(** Result 3, general snapshot.  Without weak-tombstone writes: at every snapshot [S] at or
+    above the seqno counter, the logical content of the latest superversion reads, for
+    EVERY key, exactly like the log of all writes. *)
+Theorem machine_top_view_gen : forall ops,
+  mops_ok minit ops = true ->
+  (forall k t v, In (MWrite k t v) ops -> t <> WeakTomb) ->
+  let st := mrun minit ops in
+  forall sv, latest (hist (hs st)) = Some sv ->
+  forall k S, ctr (hs st) <= S ->
+  spec_get (content sv) k S = spec_get (wlog st) k S.
+Proof.
+  intros ops OK NWW st sv L k S HS. apply machine_top_view_key; eauto.
+Qed.
+
+(** Result 3 (property C01 for the model, unbounded), as stated: the newest snapshot *)
+Theorem machine_top_view : forall ops,
+  mops_ok minit ops = true ->
+  (forall k t v, In (MWrite k t v) ops -> t <> WeakTomb) ->
+  let st := mrun minit ops in
+  forall sv, latest (hist (hs st)) = Some sv ->
+  forall k, spec_get (content sv) k SEQ_MAX = spec_get (wlog st) k SEQ_MAX.
+Proof.
+  intros ops OK NWW st sv L k. apply machine_top_view_gen; auto.
+  destruct (machine_inv ops OK) as (_ & _ & _ & _ & _ & _ & Hlim). fold st in Hlim.
+  pose proof SEQ_LIMIT_le_MAX. fold st. lia.
+Qed.
+
+(** the same in every state passed on the way *)
+Corollary machine_top_view_prefix : forall ops1 ops2,
+  mops_ok minit (ops1 ++ ops2) = true ->
+  (forall k t v, In (MWrite k t v) ops1 -> t <> WeakTomb) ->
+  let st := mrun minit ops1 in
+  forall sv, latest (hist (hs st)) = Some sv ->
+  forall k, spec_get (content sv) k SEQ_MAX = spec_get (wlog st) k SEQ_MAX.
+Proof.
+  intros ops1 ops2 OK NWW. destruct (mops_ok_app _ _ _ OK) as [OK1 _].
+  now apply machine_top_view.
+Qed.
+
+(** the real read path (memtable, sealed memtables newest first, runs in level order,
+    first hit wins, tombstones read as absent) with any sound filter returns what the
+    ordered-map Spec returns on the write log *)
+Corollary machine_point_reads : forall ops,
+  mops_ok minit ops = true ->
+  (forall k t v, In (MWrite k t v) ops -> t <> WeakTomb) ->
+  let st := mrun minit ops in
+  forall sv, latest (hist (hs st)) = Some sv ->
+  forall flt, filter_sound flt sv ->
+  forall k, sv_get flt sv k SEQ_MAX = spec_get (wlog st) k SEQ_MAX.
+Proof.
+  intros ops OK NWW st sv L flt Hf k.
+  destruct (machine_inv ops OK) as (_ & _ & Hsv & _). fold st in Hsv.
+  destruct (Hsv sv L) as (CI & _).
+  rewrite (sv_get_sound flt sv CI Hf). now apply machine_top_view.
+Qed.
+
+Corollary machine_mget : forall ops,
+  mops_ok minit ops = true ->
+  (forall k t v, In (MWrite k t v) ops -> t <> WeakTomb) ->
+  forall k, mget (fun _ _ => true) (mrun minit ops) k = spec_get (wlog (mrun minit ops)) k SEQ_MAX.
+Proof.
+  intros ops OK NWW k. unfold mget, mlatest.
+  destruct (machine_inv ops OK) as (_ & (sv & L) & _). rewrite L.
+  apply machine_point_reads; auto. apply filter_sound_true.
+Qed.
+
+
+(** * 11. Examples *)
+
+Module MachineExample.
+  Definition ka : key := [97].  Definition kb : key := [98].  Definition kc : key := [99].
+
+  (** writes, deletes, rotations, two flushes (the first one cut into two tables), a
+      compaction of everything into the last level (tombstone of [ka] evicted together
+      with the value beneath it), another delete + flush, a move, history GC *)
+  Definition ops : list mop :=
+    [ MWrite ka Value [1]; MWrite kb Value [2]; MWrite kc Value [3]; MRotate;
+      MFlush 0 [2%nat];
+      MWrite ka Tomb []; MWrite kb Value [4]; MRotate;
+      MFlush 0 [];
+      MCompact [0;1;2] 6 100 [1%nat];
+      MWrite kc Tomb [];
+      MRotate; MFlush 0 []; MMove [5] 3; MMaint 100 ].
+
+  Example ops_ok : mops_ok minit ops = true.
+  Proof. vm_compute; reflexivity. Qed.
+
+  Example ops_noweak : forall k t v, In (MWrite k t v) ops -> t <> WeakTomb.
+  Proof.
+    intros k t v H. unfold ops in H. cbn [In] in H.
+    repeat (destruct H as [H|H]; [try discriminate; inversion H; subst; discriminate|]).
+    contradiction.
+  Qed.
+
+  (** the final tree: [kc]'s tombstone in level 3 shadows its value in level 6 *)
+  Example final_levels :
+    match mlatest (mrun minit ops) with
+    | Some sv => map (map (map tid)) (levels (ver sv))
+    | None => []
+    end = [[]; []; []; [[5]]; []; []; [[3; 4]]].
+  Proof. vm_compute; reflexivity. Qed.
+
+  Example final_counters :
+    let st := mrun minit ops in
+    (ctr (hs st), next_tid st, next_mid st, length (hist (hs st))) = (11, 6, 4, 1%nat).
+  Proof. vm_compute; reflexivity. Qed.
+
+  (** the resulting reads through the real read path *)
+  Example reads :
+    map (mget (fun _ _ => true) (mrun minit ops)) [ka; kb; kc]
+    = [None; Some (mkE kb 5 Value [4]); None].
+  Proof. vm_compute; reflexivity. Qed.
+
+  (** ... are the Spec's reads of the write log, by the theorem (no computation) *)
+  Example reads_by_theorem : forall k,
+    mget (fun _ _ => true) (mrun minit ops) k = spec_get (wlog (mrun minit ops)) k SEQ_MAX.
+  Proof. apply machine_mget; [exact ops_ok|exact ops_noweak]. Qed.
+
+  (** [build_tables_ok]: a sorted stream output, cut after the two versions of [ka] *)
+  Definition out1 : list entry :=
+    [mkE ka 7 Tomb []; mkE ka 2 Value [1]; mkE kb 5 Value [2]; mkE kc 9 Value [3]].
+  Example build_tables_hyps :
+    sorted_b out1 = true /\ out1 <> [] /\ cuts_ok [2%nat] out1 = true.
+  Proof. repeat split; try (vm_compute; reflexivity). discriminate. Qed.
+  Example build_tables_result :
+    map (fun t => (tid t, kmin t, kmax t, slo t, shi t, n_items t, n_tomb t))
+        (build_tables 7 [2%nat] out1)
+    = [(7, ka, ka, 2, 7, 2, 1); (8, kb, kc, 5, 9, 2, 0)].
+  Proof. vm_compute; reflexivity. Qed.
+  (** a cut between two versions of the same user key is rejected (the MultiWriter never
+      rotates there) *)
+  Example cut_inside_key_rejected : cuts_ok [1%nat] out1 = false.
+  Proof. vm_compute; reflexivity. Qed.
+End MachineExample.
+
+(** ** Why [evict_ok] looks at every level: checking only the tables kept in the
+    destination level is not enough.  [ka]'s value is moved to level 3, its tombstone is
+    flushed to level 0 and then compacted ALONE into the last level, where it is evicted:
+    [merge_choice_ok], [contig_ok] and the destination-level-only check all pass, but the
+    value in level 3 becomes visible again.  [mop_ok] (with [evict_ok]) rejects the op. *)
+Module EvictExample.
+  Definition ka : key := [97].
+  Definition evict_ok_dest (v : version) (ids : list N) (dest : nat)
+             (merged out : list entry) : bool :=
+    forallb (fun e =>
+      key_in (ukey e) out
+      || forallb (fun t => negb (key_in (ukey e) (ents t)))
+                 (kept ids (concat (nth dest (levels v) []))))
+      merged.
+  Definition ops : list mop :=
+    [ MWrite ka Value [1]; MRotate; MFlush 0 []; MMove [0] 3;
+      MWrite ka Tomb []; MRotate; MFlush 0 [] ].
+  Definition bad : mop := MCompact [1] 6 100 [].
+
+  Theorem evict_ok_dest_level_only_refuted :
+    mops_ok minit ops = true /\
+    (exists l, mlatest (mrun minit ops) = Some l /\
+       let v := ver l in
+       let out := compact_out 100 6 v [1] in
+       ids_exist v [1] = true /\ contig_ok v [1] = true /\
+       merge_choice_ok v [1] (build_tables (next_tid (mrun minit ops)) [] out) 6 = true /\
+       evict_ok_dest v [1] 6 (compact_merged v [1]) out = true /\
+       evict_ok v [1] (compact_merged v [1]) out = false) /\
+    mop_ok (mrun minit ops) bad = false /\
+    mget (fun _ _ => true) (mrun minit ops) ka = None /\
+    mget (fun _ _ => true) (mstep (mrun minit ops) bad) ka = Some (mkE ka 0 Value [1]) /\
+    spec_get (wlog (mstep (mrun minit ops) bad)) ka SEQ_MAX = None.
+  Proof.
+    split; [vm_compute; reflexivity|]. split.
+    - eexists. split; [vm_compute; reflexivity|]. vm_compute. auto.
+    - vm_compute. auto.
+  Qed.
+End EvictExample.
+
+(** * 12. Major compaction is always a legal choice *)
+
+Lemma kept_all ids ts : (forall t, In t ts -> id_in ids t = true) -> kept ids ts = [].
+Proof. intros H. unfold kept. apply filter_none. intros t Ht. now rewrite (H t Ht). Qed.
+
+Lemma id_in_all v t : In t (all_tables v) -> id_in (map tid (all_tables v)) t = true.
+Proof.
+  intros H. unfold id_in. apply existsb_exists. exists (tid t).
+  split; [now apply in_map|apply N.eqb_refl].
+Qed.
+
+Lemma all_newer_nil_r xs : all_newer xs [] = true.
+Proof. unfold all_newer. apply forallb_forall. intros x _. reflexivity. Qed.
+
+Lemma drop_unchosen_In ids r t : In t (drop_unchosen ids r) -> In t r.
+Proof.
+  induction r as [|x r IH]; cbn [drop_unchosen]; [auto|].
+  destruct (id_in ids x); [auto|]. intros H. right. auto.
+Qed.
+
+Lemma run_span_In ids r t : In t (run_span ids r) -> In t r.
+Proof.
+  unfold run_span. intros H. apply in_rev in H. apply drop_unchosen_In in H.
+  apply in_rev in H. now apply drop_unchosen_In in H.
+Qed.
+
+Lemma tables_of_firstn_In d (ls : list level) t : In t (tables_of (firstn d ls)) -> In t (tables_of ls).
+Proof.
+  intros H. rewrite <- (firstn_skipn d ls), vs_tables_of_app. apply in_or_app. now left.
+Qed.
+
+Lemma tables_of_skipn_In d (ls : list level) t : In t (tables_of (skipn d ls)) -> In t (tables_of ls).
+Proof.
+  intros H. rewrite <- (firstn_skipn d ls), vs_tables_of_app. apply in_or_app. now right.
+Qed.
+
+(** (stretch) Compacting ALL tables of the latest version into the last level (a major
+    compaction) satisfies every compaction condition of [mop_ok], whatever the watermark:
+    only the cuts have to respect key boundaries and a seqno has to be available. *)
+Theorem major_choice_ok : forall st l W cuts,
+  minv st -> latest (hist (hs st)) = Some l ->
+  all_tables (ver l) <> [] -> seq_avail st = true ->
+  let ids := map tid (all_tables (ver l)) in
+  cuts_ok cuts (compact_out W last_level (ver l) ids) = true ->
+  mop_ok st (MCompact ids last_level W cuts) = true.
+Proof.
+  intros st l W cuts M L NE SA ids HC. pose proof M as [Ih Iw (l0 & L0 & Hl)].
+  rewrite L in L0. inversion L0; subst l0. clear L0.
+  destruct (sv_inv_elim l (li_inv _ _ Hl)) as (_ & _ & HV & _ & _).
+  destruct (compact_facts (ver l) ids W last_level HV) as (HSm & HSo & _).
+  assert (forall ts, (forall t, In t ts -> In t (all_tables (ver l))) -> kept ids ts = []) as HK.
+  { intros ts Hts. apply kept_all. intros t Ht. apply id_in_all. auto. }
+  unfold mop_ok. rewrite L. rewrite !andb_true_iff. repeat split.
+  - exact SA.
+  - unfold ids. destruct (all_tables (ver l)); [congruence|reflexivity].
+  - apply vs_nodup_N_b. now apply version_inv_nodup.
+  - unfold ids_exist. apply forallb_forall. intros id Hid. apply in_map_iff in Hid.
+    destruct Hid as (t & <- & Ht). apply existsb_exists. exists t. split; [exact Ht|apply N.eqb_refl].
+  - unfold contig_ok. apply forallb_forall. intros r Hr. apply forallb_forall. intros t Ht.
+    apply id_in_all. unfold all_tables. apply in_concat. exists r. split; [exact Hr|].
+    eapply run_span_In; eauto.
+  - exact HC.
+  - unfold merge_choice_ok. rewrite !andb_true_iff. repeat split.
+    + now apply build_tables_opt_run_ok.
+    + rewrite (HK (all_tables (ver l))) by auto. rewrite app_nil_r. apply vs_nodup_N_b.
+      destruct (build_tables_gen cuts (next_tid st) _ HSo HC) as (_ & _ & _ & I4 & _).
+      rewrite I4. apply ids_from_NoDup.
+    + unfold place_ok. rewrite !HK.
+      * now rewrite all_newer_nil_r.
+      * intros t Ht. eapply tables_of_skipn_In; eauto.
+      * intros t Ht. eapply tables_of_firstn_In; eauto.
+  - cbn [is_last_level negb orb]. unfold evict_ok. rewrite (HK (all_tables (ver l))) by auto.
+    apply forallb_forall. intros e _. cbn [forallb]. apply orb_true_r.
+Qed.
+
+Example major_choice_ex :
+  let st := mrun minit (firstn 9 MachineExample.ops) in
+  mlatest st <> None /\
+  forall l, mlatest st = Some l ->
+    map tid (all_tables (ver l)) = [2; 1; 0] /\
+    mop_ok st (MCompact (map tid (all_tables (ver l))) last_level 100 []) = true.
+Proof.
+  split; [vm_compute; discriminate|]. intros l L. vm_compute in L. inversion L; subst l.
+  vm_compute. auto.
+Qed.
+
+
+(** * 13. (stretch) Weak tombstones under the single-delete discipline *)
+
+(** ** 13.1 the history of one key, newest first, independent of where the versions are *)
+
+Definition ndik (l : list entry) : Prop := NoDup (map ik l).
+
+Definition ksort (k : key) (l : list entry) : list entry :=
+  fold_right ins_sorted [] (kents k l).
+
+Lemma perm_filter {A} (p : A -> bool) l l' :
+  Permutation l l' -> Permutation (filter p l) (filter p l').
+Proof.
+  induction 1 as [|x l l' P IH|x y l|l l' l'' P1 IH1 P2 IH2]; cbn [filter].
+  - apply Permutation_refl.
+  - destruct (p x); [now apply perm_skip|exact IH].
+  - destruct (p x), (p y); try apply Permutation_refl. apply perm_swap.
+  - eapply perm_trans; eauto.
+Qed.
+
+Lemma ndik_perm l l' : Permutation l l' -> ndik l -> ndik l'.
+Proof. intros P. apply Permutation_NoDup. now apply Permutation_map. Qed.
+
+Lemma ndik_filter p l : ndik l -> ndik (filter p l).
+Proof.
+  unfold ndik. induction l as [|x l IH]; intros ND; [constructor|].
+  cbn [map] in ND. inversion ND as [|? ? NI ND']; subst. cbn [filter].
+  destruct (p x); [|auto]. cbn [map]. constructor; [|auto].
+  intros HI. apply NI. apply in_map_iff in HI. destruct HI as (y & E & Hy).
+  apply filter_In in Hy. rewrite <- E. apply in_map. tauto.
+Qed.
+
+Lemma ndik_app_l a b : ndik (a ++ b) -> ndik a.
+Proof. unfold ndik. rewrite map_app. apply NoDup_app_l'. Qed.
+
+Lemma ndik_uniq l : ndik l -> uniq l.
+Proof.
+  unfold ndik. induction l as [|x l IH]; intros ND e1 e2 H1 H2 Ek Es; [contradiction|].
+  cbn [map] in ND. inversion ND as [|? ? NI ND']; subst.
+  destruct H1 as [->|H1], H2 as [->|H2]; auto.
+  - exfalso. apply NI. replace (ik e1) with (ik e2) by (unfold ik; congruence). now apply in_map.
+  - exfalso. apply NI. replace (ik e2) with (ik e1) by (unfold ik; congruence). now apply in_map.
+  - apply IH; auto.
+Qed.
+
+Lemma ksort_perm k l : Permutation (ksort k l) (kents k l).
+Proof.
+  unfold ksort. eapply perm_trans; [apply fold_ins_perm|]. rewrite app_nil_r. apply Permutation_refl.
+Qed.
+
+Lemma ksort_sorted k l : ndik l -> ssorted (ksort k l) = true.
+Proof.
+  intros ND. unfold ksort. apply fold_ins_ssorted; [reflexivity|]. rewrite app_nil_r.
+  now apply ndik_filter.
+Qed.
+
+Lemma ksort_In k l x : In x (ksort k l) <-> In x l /\ ukey x = k.
+Proof.
+  rewrite <- kents_in. split; apply Permutation_in; [|apply Permutation_sym]; apply ksort_perm.
+Qed.
+
+(** a strictly sorted list is determined by its elements *)
+Lemma sorted_perm_eq : forall a b,
+  ssorted a = true -> ssorted b = true -> Permutation a b -> a = b.
+Proof.
+  induction a as [|x a IH]; intros b HA HB P.
+  - apply Permutation_nil in P. now subst.
+  - destruct b as [|y b]; [apply Permutation_sym, Permutation_nil in P; discriminate|].
+    assert (x = y) as ->.
+    { assert (In x (y :: b)) as Hx by (eapply Permutation_in; [exact P|now left]).
+      assert (In y (x :: a)) as Hy
+          by (eapply Permutation_in; [apply Permutation_sym; exact P|now left]).
+      destruct Hx as [->|Hx]; [reflexivity|]. destruct Hy as [->|Hy]; [reflexivity|].
+      pose proof (ssorted_head_lt _ _ _ HB Hx) as L1.
+      pose proof (ssorted_head_lt _ _ _ HA Hy) as L2.
+      pose proof (ikey_ltb_trans _ _ _ L1 L2) as L3.
+      rewrite ikey_ltb_irrefl' in L3; [discriminate|reflexivity|reflexivity]. }
+    f_equal. apply IH; [eapply ssorted_tail; eauto|eapply ssorted_tail; eauto|].
+    eapply Permutation_cons_inv; eauto.
+Qed.
+
+Lemma ksort_unique k l s :
+  ndik l -> ssorted s = true -> Permutation s (kents k l) -> ksort k l = s.
+Proof.
+  intros ND HS P. apply sorted_perm_eq; [now apply ksort_sorted|exact HS|].
+  eapply perm_trans; [apply ksort_perm|now apply Permutation_sym].
+Qed.
+
+Lemma ksort_of_sorted k l : ssorted l = true -> ksort k l = kents k l.
+Proof.
+  intros HS. apply ksort_unique; [now apply ssorted_NoDup_ik|now apply kents_ssorted|].
+  apply Permutation_refl.
+Qed.
+
+Lemma ksort_perm_inv k l l' : ndik l -> Permutation l l' -> ksort k l = ksort k l'.
+Proof.
+  intros ND P. apply ksort_unique; [exact ND|apply ksort_sorted; eapply ndik_perm; eauto|].
+  eapply perm_trans; [apply ksort_perm|]. apply Permutation_sym. now apply perm_filter.
+Qed.
+
+Lemma kents_idem k l : kents k (kents k l) = kents k l.
+Proof.
+  unfold kents. induction l as [|x l IH]; [reflexivity|]. cbn [filter].
+  destruct (key_eqb (ukey x) k) eqn:E; [|exact IH]. cbn [filter]. now rewrite E, IH.
+Qed.
+
+Lemma kents_ksort k l : kents k (ksort k l) = ksort k l.
+Proof.
+  unfold kents. induction (ksort k l) as [|x s IH] eqn:E; [reflexivity|].
+  assert (forall y, In y (x :: s) -> ukey y = k) as H.
+  { intros y Hy. rewrite <- E in Hy. apply ksort_In in Hy. tauto. }
+  clear E IH. induction (x :: s) as [|y t IH]; [reflexivity|]. cbn [filter].
+  assert (key_eqb (ukey y) k = true) as -> by (apply key_eqb_eq; apply H; now left).
+  f_equal. apply IH. intros z Hz. apply H. now right.
+Qed.
+
+(** the Spec's [newest], at a snapshot above every version of [k], is the head of the
+    key's history *)
+Lemma newest_ksort k S l :
+  ndik l -> (forall e, In e l -> ukey e = k -> seq e < S) ->
+  newest k S l = hd_error (ksort k l).
+Proof.
+  intros ND HSn. rewrite newest_filter_key. fold (kents k l).
+  rewrite (newest_perm k S (kents k l) (ksort k l)).
+  - rewrite newest_hd.
+    + now rewrite kents_ksort.
+    + now apply ksort_sorted.
+    + intros e He Ek. apply ksort_In in He. apply HSn; tauto.
+  - apply ndik_uniq. now apply ndik_filter.
+  - apply Permutation_sym, ksort_perm.
+Qed.
+
+(** ** 13.2 the discipline survives when a contiguous part of a key's history goes through
+    the stream *)
+
+Lemma ssorted_app_intro a b :
+  ssorted a = true -> ssorted b = true ->
+  (forall x y, In x a -> In y b -> ikey_ltb x y = true) -> ssorted (a ++ b) = true.
+Proof.
+  induction a as [|x a IH]; intros HA HB HX; [exact HB|].
+  cbn [app]. apply ssorted_cons. split.
+  - apply Forall_forall. intros y Hy. apply in_app_or in Hy. destruct Hy as [Hy|Hy].
+    + eapply ssorted_head_lt; eauto.
+    + apply HX; [now left|exact Hy].
+  - apply IH; [eapply ssorted_tail; eauto|exact HB|]. intros u w Hu Hw. apply HX; [now right|exact Hw].
+Qed.
+
+Lemma alt_app_r a b : alternating (a ++ b) = true -> alternating b = true.
+Proof.
+  induction a as [|x a IH]; [auto|]. cbn [app]. intros H.
+  destruct (alt_cons_inv1 _ _ H) as [_ HA]. auto.
+Qed.
+
+Lemma hk_nil_r o : hk o [] -> o = [].
+Proof. auto. Qed.
+
+Lemma hk_trans X Y Z : hk X Y -> hk Y Z -> hk X Z.
+Proof.
+  destruct Z as [|z Z']; cbn [hk].
+  - intros H ->. exact H.
+  - destruct (is_val z) eqn:Vz.
+    + intros H (t & ->). cbn [hk] in H. now rewrite Vz in H.
+    + intros H [->|(w & t & -> & Hw)]; [left; exact H|]. cbn [hk] in H.
+      destruct (weak_facts _ Hw) as (Vw & _). rewrite Vw in H. exact H.
+Qed.
+
+Lemma hk_prefix n N X Y Z : hk ((n :: N) ++ Y) Z -> hk ((n :: N) ++ X) Z.
+Proof.
+  destruct Z as [|z Z']; cbn [hk app]; [discriminate|].
+  destruct (is_val z).
+  - intros (t & E). inversion E; subst. eauto.
+  - intros [E|(w & t & E & Hw)]; [discriminate|]. inversion E; subst. right. eauto.
+Qed.
+
+Lemma kinds_neq x y :
+  (is_val x = true /\ is_weak_tomb y = true) \/ (is_weak_tomb x = true /\ is_val y = true) ->
+  is_weak_tomb x <> is_weak_tomb y.
+Proof.
+  intros [[Ex Ey]|[Ex Ey]].
+  - destruct (val_facts _ Ex) as (-> & _). rewrite Ey. discriminate.
+  - destruct (val_facts _ Ey) as (-> & _). rewrite Ex. discriminate.
+Qed.
+
+Lemma alt_prefix_hk N X Y :
+  alternating (N ++ Y) = true -> alternating X = true -> hk X Y -> alternating (N ++ X) = true.
+Proof.
+  induction N as [|n N IH]; intros HA HX HK; [exact HX|].
+  cbn [app] in *. destruct (alt_cons_inv1 _ _ HA) as [Wn HA'].
+  apply alt_cons_intro; [exact Wn|now apply IH|].
+  intros y t E. destruct N as [|n' N'].
+  - cbn [app] in *. subst X. destruct Y as [|y0 Y']; [cbn [hk] in HK; discriminate|].
+    cbn [hk] in HK. destruct (is_val y0) eqn:V0.
+    + destruct HK as (t' & E). inversion E; subst.
+      destruct (alt_cons_inv _ _ _ HA) as [_ T]. now apply kinds_neq.
+    + destruct HK as [E|(w & t' & E & Hw)]; [discriminate|]. inversion E; subst.
+      destruct (alt_cons_inv _ _ _ HA) as [_ T].
+      destruct T as [[Ex Ey]|[_ Ey]]; [|congruence].
+      destruct (val_facts _ Ex) as (-> & _). rewrite Hw. discriminate.
+  - cbn [app] in E. inversion E; subst. cbn [app] in HA.
+    destruct (alt_cons_inv _ _ _ HA) as [_ T]. now apply kinds_neq.
+Qed.
+
+Lemma kents_all k l : (forall x, In x l -> ukey x = k) -> kents k l = l.
+Proof.
+  induction l as [|x l IH]; intros H; [reflexivity|]. rewrite kents_cons.
+  assert (key_eqb (ukey x) k = true) as -> by (apply key_eqb_eq; apply H; now left).
+  f_equal. apply IH. intros y Hy. apply H. now right.
+Qed.
+
+Lemma ndik_app_r a b : ndik (a ++ b) -> ndik b.
+Proof. unfold ndik. rewrite map_app. apply NoDup_app_r'. Qed.
+
+Lemma ikey_ltb_same_key x y : ukey x = ukey y -> seq y < seq x -> ikey_ltb x y = true.
+Proof. intros Ek Es. apply ikey_ltb_spec. right. auto. Qed.
+
+(** the shape of a key's history when part [I] of the bag is sorted and the rest of the
+    key's versions are split by [i0] into newer ([Rn]) and older ([Ro]) ones *)
+Lemma ksort_three k C I R Rn Ro :
+  ndik C -> ssorted I = true -> Permutation C (I ++ R) ->
+  Permutation (kents k R) (Rn ++ Ro) ->
+  (forall r i, In r Rn -> In i I -> ukey i = k -> seq i < seq r) ->
+  (forall r i, In r Ro -> In i I -> ukey i = k -> seq r < seq i) ->
+  (forall r r', In r Rn -> In r' Ro -> seq r' < seq r) ->
+  ksort k C = ksort k Rn ++ kents k I ++ ksort k Ro.
+Proof.
+  intros ND HS P PR Hn Ho Hno.
+  assert (ndik (kents k R)) as NDR.
+  { apply ndik_filter. eapply ndik_app_r. eapply ndik_perm; eauto. }
+  assert (ndik Rn /\ ndik Ro) as [NDn NDo].
+  { pose proof (ndik_perm _ _ PR NDR) as H. split; [eapply ndik_app_l|eapply ndik_app_r]; eauto. }
+  assert (forall r, In r (Rn ++ Ro) -> ukey r = k) as Hk.
+  { intros r Hr. apply (Permutation_in _ (Permutation_sym PR)) in Hr. apply kents_in in Hr. tauto. }
+  apply ksort_unique; [exact ND| |].
+  - apply ssorted_app_intro; [now apply ksort_sorted| |].
+    + apply ssorted_app_intro; [now apply kents_ssorted|now apply ksort_sorted|].
+      intros x y Hx Hy. apply kents_in in Hx. apply ksort_In in Hy. destruct Hx as [Hx Kx], Hy as [Hy Ky].
+      apply ikey_ltb_same_key; [congruence|]. now apply (Ho y x).
+    + intros x y Hx Hy. apply ksort_In in Hx. destruct Hx as [Hx Kx].
+      apply in_app_or in Hy. destruct Hy as [Hy|Hy].
+      * apply kents_in in Hy. destruct Hy as [Hy Ky].
+        apply ikey_ltb_same_key; [congruence|]. now apply (Hn x y).
+      * apply ksort_In in Hy. destruct Hy as [Hy Ky].
+        apply ikey_ltb_same_key; [congruence|]. now apply Hno.
+  - eapply perm_trans; [|apply perm_filter; apply Permutation_sym; exact P].
+    fold (kents k (I ++ R)). rewrite kents_app.
+    eapply perm_trans; [apply Permutation_app_swap_app|]. apply Permutation_app_head.
+    eapply perm_trans; [|apply Permutation_sym; exact PR].
+    apply Permutation_app.
+    + eapply perm_trans; [apply ksort_perm|]. rewrite kents_all; [apply Permutation_refl|].
+      intros x Hx. apply Hk. apply in_or_app. now left.
+    + eapply perm_trans; [apply ksort_perm|]. rewrite kents_all; [apply Permutation_refl|].
+      intros x Hx. apply Hk. apply in_or_app. now right.
+Qed.
+
+Lemma nil_no_In {A} (l : list A) : (forall x, In x l -> False) -> l = [].
+Proof. destruct l as [|x l]; [reflexivity|]. intros H. exfalso. apply (H x). now left. Qed.
+
+(** [C] = [I] + [R] becomes [C'] = [O] + [R], [O] the stream output on the sorted input [I];
+    the versions of [k] outside [I] are each newer than all of [I]'s or (not under
+    eviction) older than all of [I]'s.  Then a disciplined history of [k] stays
+    disciplined and keeps its head shape. *)
+Lemma replace_weak W evict C C' I R k :
+  ndik C -> ndik C' -> sorted_b I = true ->
+  Permutation C (I ++ R) ->
+  Permutation C' (fst (run_stream W evict no_filter I) ++ R) ->
+  alternating (ksort k C) = true ->
+  (forall r, In r R -> ukey r = k ->
+     (forall i, In i I -> ukey i = k -> seq i < seq r) \/
+     (evict = false /\ forall i, In i I -> ukey i = k -> seq r < seq i)) ->
+  alternating (ksort k C') = true /\ (forall Z, hk (ksort k C) Z -> hk (ksort k C') Z).
+Proof.
+  intros ND ND' HS P P' HA HR. rewrite <- ssorted_eq in HS.
+  destruct (run_stream W evict no_filter I) as [O log] eqn:ER. cbn [fst] in P'.
+  pose proof (cstream_out_subseq _ _ _ _ _ ER) as SUB.
+  pose proof (cstream_out_sorted _ _ _ _ _ _ HS ER) as HSO.
+  destruct (kents k I) as [|i0 Ik] eqn:EI.
+  - assert (kents k O = []) as EO.
+    { apply kents_nil. intros x Hx Ek.
+      assert (In x (kents k I)) as H
+          by (apply kents_in; split; [apply (subseq_incl _ _ SUB); auto|auto]).
+      rewrite EI in H. destruct H. }
+    assert (ksort k C' = ksort k C) as ->; [|auto].
+    apply ksort_unique; [exact ND'|now apply ksort_sorted|].
+    eapply perm_trans; [apply ksort_perm|].
+    eapply perm_trans; [apply perm_filter; exact P|]. fold (kents k (I ++ R)).
+    eapply perm_trans; [|apply perm_filter; apply Permutation_sym; exact P'].
+    fold (kents k (O ++ R)). rewrite !kents_app, EI, EO. apply Permutation_refl.
+  - set (Rn := filter (fun r => seq i0 <? seq r) (kents k R)).
+    set (Ro := filter (fun r => negb (seq i0 <? seq r)) (kents k R)).
+    assert (In i0 I /\ ukey i0 = k) as [Hi0 Ki0] by (apply kents_in; rewrite EI; now left).
+    assert (Permutation (kents k R) (Rn ++ Ro)) as PR
+        by (apply Permutation_sym, vs_perm_filter_split).
+    assert (forall r i, In r Rn -> In i I -> ukey i = k -> seq i < seq r) as Hn.
+    { intros r i Hr Hi Ki. apply filter_In in Hr. destruct Hr as [Hr Lt].
+      apply N.ltb_lt in Lt. apply kents_in in Hr. destruct Hr as [Hr Kr].
+      destruct (HR r Hr Kr) as [A|[_ B]]; [auto|]. specialize (B i0 Hi0 Ki0). lia. }
+    assert (forall r i, In r Ro -> In i I -> ukey i = k -> seq r < seq i /\ evict = false) as Ho.
+    { intros r i Hr Hi Ki. apply filter_In in Hr. destruct Hr as [Hr Lt].
+      apply negb_true_iff, N.ltb_ge in Lt. apply kents_in in Hr. destruct Hr as [Hr Kr].
+      destruct (HR r Hr Kr) as [A|[E B]]; [specialize (A i0 Hi0 Ki0); lia|auto]. }
+    assert (forall r r', In r Rn -> In r' Ro -> seq r' < seq r) as Hno.
+    { intros r r' Hr Hr'. specialize (Hn r i0 Hr Hi0 Ki0).
+      destruct (Ho r' i0 Hr' Hi0 Ki0). lia. }
+    assert (evict = true -> Ro = []) as HD.
+    { intros Ev. apply nil_no_In. intros r Hr. destruct (Ho r i0 Hr Hi0 Ki0). congruence. }
+    assert (ksort k C = ksort k Rn ++ kents k I ++ ksort k Ro) as EC.
+    { apply (ksort_three k C I R Rn Ro ND HS P PR Hn); [|exact Hno].
+      intros r i Hr Hi Ki. now apply (Ho r i). }
+    assert (ksort k C' = ksort k Rn ++ kents k O ++ ksort k Ro) as EC'.
+    { apply (ksort_three k C' O R Rn Ro ND' HSO P' PR); [| |exact Hno].
+      - intros r i Hr Hi Ki. apply (Hn r i); auto. now apply (subseq_incl _ _ SUB).
+      - intros r i Hr Hi Ki. apply (Ho r i); auto. now apply (subseq_incl _ _ SUB). }
+    rewrite EC in HA. rewrite EC, EC'.
+    set (N := ksort k Rn) in *. set (D := ksort k Ro) in *.
+    pose proof (alt_app_r _ _ HA) as HA2.
+    pose proof (cstream_weak_red W evict I O log k HS ER (alt_app_l _ _ HA2)) as RED.
+    assert (evict = true -> D = []) as HD' by (intros Ev; unfold D; now rewrite (HD Ev)).
+    destruct (wred_alt _ _ _ RED D HA2 HD') as [A1 A2].
+    split.
+    + apply (alt_prefix_hk N _ (kents k I ++ D)); auto.
+    + intros Z HZ. destruct N as [|n N'].
+      * cbn [app] in *. eapply hk_trans; eauto.
+      * eapply hk_prefix; eauto.
+Qed.
+
+(** ** 13.3 the weak-delete invariant along the machine, for one key [k] *)
+
+(** newest first *)
+Fixpoint desc (l : list entry) : Prop :=
+  match l with
+  | [] => True
+  | x :: r => (forall y, In y r -> seq y < seq x) /\ desc r
+  end.
+
+Lemma desc_ssorted_kents k l : desc l -> ssorted (kents k l) = true.
+Proof.
+  induction l as [|x l IH]; intros D; [reflexivity|]. destruct D as [D1 D2].
+  rewrite kents_cons. destruct (key_eqb (ukey x) k) eqn:E; [|auto].
+  apply ssorted_cons. split; [|auto]. apply Forall_forall. intros y Hy.
+  apply kents_in in Hy. destruct Hy as [Hy Ky]. key_prop.
+  apply ikey_ltb_same_key; [congruence|auto].
+Qed.
+
+Lemma NoDup_seq_ndik l : NoDup (map seq l) -> ndik l.
+Proof.
+  unfold ndik. induction l as [|x l IH]; intros ND; [constructor|].
+  cbn [map] in *. inversion ND as [|? ? NI ND']; subst. constructor; [|auto].
+  intros HI. apply NI. apply in_map_iff in HI. destruct HI as (y & E & Hy).
+  unfold ik in E. inversion E as [[Ek Es]]. apply in_map_iff. exists y. auto.
+Qed.
+
+Lemma ksort_desc k l : NoDup (map seq l) -> desc l -> ksort k l = kents k l.
+Proof.
+  intros ND D. apply ksort_unique; [now apply NoDup_seq_ndik|now apply desc_ssorted_kents|].
+  apply Permutation_refl.
+Qed.
+
+Lemma content_ndik sv : check_inv_sv sv = true -> ndik (content sv).
+Proof.
+  intros H. unfold content. apply recency_NoDup_ik; [now apply inv_all_sorted|].
+  apply (check_inv_sv_inv _ H).
+Qed.
+
+Lemma minv_latest_ndik st l : minv st -> latest (hist (hs st)) = Some l -> ndik (content l).
+Proof.
+  intros [_ _ (l0 & L0 & Hl)] L. rewrite L in L0. inversion L0; subst l0.
+  apply content_ndik. apply Hl.
+Qed.
+
+(** the extra obligation on a compaction, for a key [k] under the single-delete
+    discipline: each version of [k] in a table that is NOT compacted is newer than all
+    compacted versions of [k], or (not at the last level) older than all of them; i.e. the
+    compacted versions of [k] are a contiguous part of its history and, at the last
+    level, its oldest part *)
+Definition wcontig (k : key) (v : version) (ids : list N) (dest : nat) : Prop :=
+  forall t r, In t (kept ids (all_tables v)) -> In r (ents t) -> ukey r = k ->
+    (forall i, In i (compact_merged v ids) -> ukey i = k -> seq i < seq r) \/
+    (is_last_level dest = false /\
+     forall i, In i (compact_merged v ids) -> ukey i = k -> seq r < seq i).
+
+Definition wop_ok (k : key) (st : mstate) (o : mop) : Prop :=
+  match o with
+  | MCompact ids dest W cuts =>
+      forall l, latest (hist (hs st)) = Some l -> wcontig k (ver l) ids dest
+  | _ => True
+  end.
+
+Fixpoint wops_ok (k : key) (st : mstate) (ops : list mop) : Prop :=
+  match ops with
+  | [] => True
+  | o :: ops' => wop_ok k st o /\ wops_ok k (mstep st o) ops'
+  end.
+
+(** the history of [k] in the latest superversion is disciplined and has the head shape
+    of the logged history of [k] *)
+Definition wkinv (k : key) (st : mstate) : Prop :=
+  desc (wlog st) /\
+  forall l, latest (hist (hs st)) = Some l ->
+    alternating (ksort k (content l)) = true /\
+    hk (ksort k (content l)) (kents k (wlog st)).
+
+Lemma wkinv_same_bag k st st' l l' :
+  ndik (content l') -> Permutation (content l') (content l) -> wlog st' = wlog st ->
+  alternating (ksort k (content l)) = true /\ hk (ksort k (content l)) (kents k (wlog st)) ->
+  alternating (ksort k (content l')) = true /\ hk (ksort k (content l')) (kents k (wlog st')).
+Proof. intros ND P EW H. rewrite (ksort_perm_inv k _ _ ND P), EW. exact H. Qed.
+
+(** ** 13.4 what a write / flush / compaction does to the content, as bags *)
+
+Lemma write_step_facts st k' t v l :
+  minv st -> latest (hist (hs st)) = Some l -> mop_ok st (MWrite k' t v) = true ->
+  let e := mkE k' (ctr (hs st)) t v in
+  let st' := mstep st (MWrite k' t v) in
+  exists l', latest (hist (hs st')) = Some l' /\
+             Permutation (content l') (e :: content l) /\
+             wlog st' = e :: wlog st /\ ctr (hs st') = ctr (hs st) + 1.
+Proof.
+  intros M L OK e st'. pose proof M as [Ih Iw (l0 & L0 & Hl)].
+  rewrite L in L0. inversion L0; subst l0. clear L0.
+  unfold st', mstep. rewrite L. fold e.
+  destruct (hstep_write_latest (hs st) e l L) as [L' C'].
+  rewrite (sv_write_latest l e (li_act _ _ Hl)) in L'.
+  eexists. split; [exact L'|]. split; [|split; [reflexivity|exact C']].
+  rewrite !content_split. unfold mem_entries. cbn [active sealed ver ments].
+  change (e :: (ments (active l) ++ concat (map ments (rev (sealed l)))) ++
+               concat (map ents (all_tables (ver l))))
+    with (((e :: ments (active l)) ++ concat (map ments (rev (sealed l)))) ++
+               concat (map ents (all_tables (ver l)))).
+  do 2 apply Permutation_app_tail. apply mt_insert_perm.
+  intros x Hx. cbn [seq e]. eapply linv_content_seq; eauto. now apply In_content_active.
+Qed.
+
+Lemma flush_step_facts st W cuts l :
+  minv st -> latest (hist (hs st)) = Some l -> mop_ok st (MFlush W cuts) = true ->
+  sealed l <> [] ->
+  let st' := mstep st (MFlush W cuts) in
+  let merged := merge_sorted (map ments (sealed l)) in
+  let R := ments (active l) ++ concat (map ents (all_tables (ver l))) in
+  exists l', latest (hist (hs st')) = Some l' /\
+             wlog st' = wlog st /\ ctr (hs st') = ctr (hs st) + 1 /\
+             sorted_b merged = true /\
+             Permutation (content l) (merged ++ R) /\
+             Permutation (content l') (fst (run_stream W false no_filter merged) ++ R) /\
+             (forall i, In i merged -> exists m, In m (sealed l) /\ In i (ments m)).
+Proof.
+  intros M L OK NE. cbv zeta. pose proof M as [Ih Iw (l0 & L0 & Hl)].
+  rewrite L in L0. inversion L0; subst l0. clear L0.
+  unfold mop_ok in OK. rewrite L in OK. apply andb_true_iff in OK. destruct OK as [SA HC].
+  unfold mstep. rewrite L. destruct (sealed l) as [|m0 ms] eqn:ES; [congruence|].
+  rewrite <- ES in *. clear m0 ms ES NE.
+  set (merged := merge_sorted (map ments (sealed l))).
+  set (R := ments (active l) ++ concat (map ents (all_tables (ver l)))).
+  destruct (flush_facts st l W Iw Hl) as (HSm & HSo & SUB & PM & Hin).
+  destruct (sv_inv_elim l (li_inv _ _ Hl)) as (S1 & S2 & HV & R1 & R2).
+  set (out := flush_out W l) in *.
+  set (tables := build_tables (next_tid st) cuts out).
+  set (f := sv_flushed (map mid (sealed l)) tables).
+  destruct (upgrade_maint_latest (hs st) f l W L) as [L' C'].
+  eexists. split; [exact L'|]. split; [reflexivity|]. split; [exact C'|]. split; [exact HSm|].
+  split; [|split].
+  - rewrite content_split. unfold mem_entries, R. rewrite <- app_assoc.
+    eapply perm_trans; [apply Permutation_app_swap_app|].
+    apply Permutation_app_tail. apply Permutation_sym. exact PM.
+  - rewrite content_with_seq, content_split. unfold f, sv_flushed, mem_entries, R.
+    cbn [active sealed ver]. rewrite remove_sealed_all. cbn [rev map concat].
+    rewrite app_nil_r. fold merged. fold (flush_out W l). fold out.
+    eapply perm_trans; [|apply Permutation_app_swap_app]. apply Permutation_app_head.
+    eapply perm_trans.
+    { apply perm_concat_map_ents. apply new_l0_tables_perm. now apply levels_nonempty. }
+    rewrite map_app, concat_app. apply Permutation_app_tail.
+    destruct (build_tables_gen cuts (next_tid st) out HSo HC) as (_ & _ & I3 & _).
+    fold tables in I3. rewrite I3. apply Permutation_refl.
+  - intros i Hi. apply merge_sorted_In in Hi. apply in_concat in Hi.
+    destruct Hi as (c & Hc & Hi). apply in_map_iff in Hc. destruct Hc as (m & <- & Hm). eauto.
+Qed.
+
+Lemma compact_step_facts st ids dest W cuts l :
+  minv st -> latest (hist (hs st)) = Some l -> mop_ok st (MCompact ids dest W cuts) = true ->
+  let st' := mstep st (MCompact ids dest W cuts) in
+  let merged := compact_merged (ver l) ids in
+  let K := concat (map ents (kept ids (all_tables (ver l)))) in
+  let R := mem_entries l ++ K in
+  exists l', latest (hist (hs st')) = Some l' /\
+             wlog st' = wlog st /\ ctr (hs st') = ctr (hs st) + 1 /\
+             sorted_b merged = true /\
+             Permutation (content l) (merged ++ R) /\
+             Permutation (content l')
+               (fst (run_stream W (is_last_level dest) no_filter merged) ++ R) /\
+             (forall i, In i merged -> exists t, In t (all_tables (ver l)) /\ In i (ents t)).
+Proof.
+  intros M L OK st' merged K R. pose proof M as [Ih Iw (l0 & L0 & Hl)].
+  rewrite L in L0. inversion L0; subst l0. clear L0.
+  unfold mop_ok in OK. rewrite L in OK. rewrite !andb_true_iff in OK.
+  destruct OK as [[[[[[[[SA _] _] EX] _] HD] HC] MC] EO].
+  unfold st', mstep. rewrite L, EX.
+  destruct (sv_inv_elim l (li_inv _ _ Hl)) as (S1 & S2 & HV & R1 & R2).
+  destruct (compact_facts (ver l) ids W dest HV) as (HSm & HSo & SUB & PM & Hin).
+  set (out := compact_out W dest (ver l) ids) in *.
+  set (new := build_tables (next_tid st) cuts out) in *.
+  set (f := sv_merged ids new dest).
+  destruct (upgrade_maint_latest (hs st) f l W L) as [L' C'].
+  assert (Permutation (concat (map ents (all_tables (ver l)))) (merged ++ K)) as PT.
+  { eapply perm_trans.
+    - apply perm_concat_map_ents. apply Permutation_sym.
+      apply (vs_perm_filter_split (id_in ids) (all_tables (ver l))).
+    - rewrite map_app, concat_app. apply Permutation_app_tail. apply Permutation_sym. exact PM. }
+  eexists. split; [exact L'|]. split; [reflexivity|]. split; [exact C'|]. split; [exact HSm|].
+  split; [|split].
+  - rewrite content_split. unfold R.
+    eapply perm_trans; [apply Permutation_app_head; exact PT|]. apply Permutation_app_swap_app.
+  - rewrite content_with_seq, content_split. unfold f, sv_merged, mem_entries, R.
+    cbn [active sealed ver]. fold (mem_entries l).
+    change (fst (run_stream W (is_last_level dest) no_filter merged)) with out.
+    eapply perm_trans; [|apply Permutation_app_swap_app]. apply Permutation_app_head.
+    eapply perm_trans.
+    { apply perm_concat_map_ents. apply merge_tables_perm. now apply ltb_7_lt. }
+    rewrite map_app, concat_app. apply Permutation_app_tail.
+    destruct (build_tables_gen cuts (next_tid st) out HSo HC) as (_ & _ & I3 & _).
+    fold new in I3. rewrite I3. apply Permutation_refl.
+  - intros i Hi. apply (Permutation_in _ PM) in Hi. apply in_concat_map_ents in Hi.
+    destruct Hi as (t0 & Ht0 & Hi0). exists t0. split; [eapply compact_in_In; eauto|exact Hi0].
+Qed.
+
+Lemma samebag_step_facts st o l :
+  minv st -> latest (hist (hs st)) = Some l -> mop_ok st o = true ->
+  (o = MRotate \/ (exists ids dest, o = MMove ids dest) \/ (exists W, o = MMaint W)) ->
+  exists l', latest (hist (hs (mstep st o))) = Some l' /\
+             Permutation (content l') (content l) /\
+             wlog (mstep st o) = wlog st /\ ctr (hs st) <= ctr (hs (mstep st o)).
+Proof.
+  intros M L OK Ho. pose proof M as [Ih Iw (l0 & L0 & Hl)].
+  rewrite L in L0. inversion L0; subst l0. clear L0.
+  destruct Ho as [->|[(ids & dest & ->)|(W & ->)]]; unfold mstep; rewrite L.
+  - destruct (ments (active l)) as [|a0 ar] eqn:EA.
+    + exists l. split; [exact L|]. split; [apply Permutation_refl|]. split; [reflexivity|lia].
+    + destruct (hstep_rotate_latest (hs st) (next_mid st) l L) as [L' C'];
+        [rewrite EA; discriminate|].
+      eexists. split; [exact L'|]. cbn [hs wlog]. split; [|split; [reflexivity|lia]].
+      unfold content, containers, sv_rotate. cbn [active sealed ver ments].
+      rewrite rev_app_distr. apply Permutation_refl.
+  - unfold mop_ok in OK. rewrite L in OK. rewrite !andb_true_iff in OK.
+    destruct OK as [[[[[SA _] _] _] HD] MC].
+    destruct (sv_inv_elim l (li_inv _ _ Hl)) as (_ & _ & HV & _ & _).
+    destruct (hstep_upgrade_latest (hs st) (sv_moved ids dest) l L) as [L' C'].
+    eexists. split; [exact L'|]. cbn [hs wlog]. split; [|split; [reflexivity|lia]].
+    rewrite content_with_seq, !content_split. unfold sv_moved, mem_entries.
+    cbn [active sealed ver]. apply Permutation_app_head. apply perm_concat_map_ents.
+    apply moved_tables_perm. now apply ltb_7_lt.
+  - destruct (hstep_maint_latest (hs st) W) as [L' C'].
+    exists l. cbn [hs wlog]. split; [now rewrite L'|].
+    split; [apply Permutation_refl|]. split; [reflexivity|lia].
+Qed.
+
+(** ** 13.5 one step, every run *)
+
+Lemma wkinv_step k st o :
+  minv st -> wkinv k st -> mop_ok st o = true -> wop_ok k st o ->
+  alternating (kents k (wlog (mstep st o))) = true ->
+  wkinv k (mstep st o).
+Proof.
+  intros M [D WK] OK WO HA. pose proof (minv_step st o M OK) as M'.
+  pose proof M as [Ih Iw (l & L & Hl)]. destruct (WK l L) as [A1 A2].
+  pose proof (minv_latest_ndik _ _ M L) as ND. unfold wkinv.
+  destruct o as [k' t v| |W cuts|ids dest W cuts|ids dest|W].
+  - (* write *)
+    destruct (write_step_facts st k' t v l M L OK) as (l' & L' & P & EW & C').
+    set (e := mkE k' (ctr (hs st)) t v) in *.
+    pose proof (minv_latest_ndik _ _ M' L') as ND'.
+    rewrite EW in HA |- *. split.
+    { split; [|exact D]. intros y Hy. apply (wi_seq _ Iw y Hy). }
+    intros l2 L2. rewrite L' in L2. inversion L2; subst l2. clear L2.
+    rewrite kents_cons in *. cbn [ukey e] in *.
+    destruct (key_eqb k' k) eqn:E.
+    + key_prop. subst k'.
+      assert (ksort k (content l') = e :: ksort k (content l)) as ->.
+      { apply ksort_unique; [exact ND'| |].
+        - apply ssorted_cons. split; [|now apply ksort_sorted].
+          apply Forall_forall. intros y Hy. apply ksort_In in Hy. destruct Hy as [Hy Ky].
+          apply ikey_ltb_same_key; [cbn [ukey e]; congruence|].
+          cbn [seq e]. eapply linv_content_seq; eauto.
+        - eapply perm_trans; [|apply perm_filter; apply Permutation_sym; exact P].
+          fold (kents k (e :: content l)). rewrite kents_cons. cbn [ukey e].
+          rewrite key_eqb_refl. apply perm_skip. apply ksort_perm. }
+      split.
+      * apply (alt_prefix_hk [e] _ (kents k (wlog st))); auto.
+      * cbn [hk]. destruct (is_val e) eqn:Ve; [eauto|]. right. exists e, (ksort k (content l)).
+        split; [reflexivity|]. destruct (alt_cons_inv1 _ _ HA) as [We _].
+        destruct (wv_cases _ We) as [X|X]; [congruence|exact X].
+    + assert (ksort k (content l') = ksort k (content l)) as ->; [|auto].
+      rewrite (ksort_perm_inv k _ _ ND' P). unfold ksort. rewrite kents_cons. cbn [ukey e].
+      now rewrite E.
+  - (* rotate *)
+    destruct (samebag_step_facts st MRotate l M L OK) as (l' & L' & P & EW & _); [auto|].
+    rewrite EW. split; [exact D|]. intros l2 L2. rewrite L' in L2. inversion L2; subst l2.
+    rewrite <- EW. apply (wkinv_same_bag k st _ l l'); auto. eapply minv_latest_ndik; eauto.
+  - (* flush *)
+    destruct (sealed l) as [|m0 ms] eqn:ES.
+    { revert HA. unfold mstep. rewrite L, ES. intros HA. split; auto. }
+    assert (sealed l <> []) as NE by (rewrite ES; discriminate). clear m0 ms ES.
+    destruct (flush_step_facts st W cuts l M L OK NE)
+      as (l' & L' & EW & C' & HSm & P & P' & Hin).
+    pose proof (minv_latest_ndik _ _ M' L') as ND'.
+    rewrite EW. split; [exact D|]. intros l2 L2. rewrite L' in L2. inversion L2; subst l2.
+    destruct (sv_inv_elim l (li_inv _ _ Hl)) as (S1 & S2 & HV & R1 & R2).
+    destruct (replace_weak W false _ _ _ _ k ND ND' HSm P P' A1) as [B1 B2]; [|auto].
+    intros r Hr Kr. apply in_app_or in Hr. destruct Hr as [Hr|Hr].
+    + left. intros i Hi Ki. destruct (Hin i Hi) as (m & Hm & Him).
+      unfold memc in R1. cbn [recency_b] in R1. apply andb_true_iff in R1.
+      destruct R1 as [R1 _]. rewrite forallb_forall in R1.
+      assert (newer_than (ments (active l)) (ments m) = true) as NT
+          by (apply R1; apply in_map; now apply in_rev in Hm).
+      rewrite newer_than_spec in NT. apply (NT r i Hr Him). congruence.
+    + right. split; [reflexivity|]. intros i Hi Ki. destruct (Hin i Hi) as (m & Hm & Him).
+      apply in_concat_map_ents in Hr. destruct Hr as (t0 & Ht0 & Hr).
+      apply (R2 (ments m) t0); auto; [apply memc_In; right; eauto|congruence].
+  - (* compaction *)
+    destruct (compact_step_facts st ids dest W cuts l M L OK)
+      as (l' & L' & EW & C' & HSm & P & P' & Hin).
+    pose proof (minv_latest_ndik _ _ M' L') as ND'.
+    rewrite EW. split; [exact D|]. intros l2 L2. rewrite L' in L2. inversion L2; subst l2.
+    destruct (sv_inv_elim l (li_inv _ _ Hl)) as (S1 & S2 & HV & R1 & R2).
+    destruct (replace_weak W (is_last_level dest) _ _ _ _ k ND ND' HSm P P' A1) as [B1 B2];
+      [|auto].
+    intros r Hr Kr. apply in_app_or in Hr. destruct Hr as [Hr|Hr].
+    + left. intros i Hi Ki. destruct (Hin i Hi) as (t0 & Ht0 & Hi0).
+      apply mem_entries_In in Hr. destruct Hr as (c & Hc & Hr).
+      apply (R2 c t0 Hc Ht0 r i Hr Hi0). congruence.
+    + apply in_concat_map_ents in Hr. destruct Hr as (t0 & Ht0 & Hr).
+      apply (WO l L t0 r Ht0 Hr Kr).
+  - (* move *)
+    destruct (samebag_step_facts st (MMove ids dest) l M L OK) as (l' & L' & P & EW & _); [eauto|].
+    rewrite EW. split; [exact D|]. intros l2 L2. rewrite L' in L2. inversion L2; subst l2.
+    rewrite <- EW. apply (wkinv_same_bag k st _ l l'); auto. eapply minv_latest_ndik; eauto.
+  - (* history GC *)
+    destruct (samebag_step_facts st (MMaint W) l M L OK) as (l' & L' & P & EW & _); [eauto|].
+    rewrite EW. split; [exact D|]. intros l2 L2. rewrite L' in L2. inversion L2; subst l2.
+    rewrite <- EW. apply (wkinv_same_bag k st _ l l'); auto. eapply minv_latest_ndik; eauto.
+Qed.
+
+Lemma mstep_wlog st o : exists pre, wlog (mstep st o) = pre ++ wlog st.
+Proof.
+  unfold mstep. destruct (latest (hist (hs st))) as [l|]; [|exists []; reflexivity].
+  destruct o as [k' t v| |W cuts|ids dest W cuts|ids dest|W].
+  - eexists [_]. reflexivity.
+  - destruct (ments (active l)); exists []; reflexivity.
+  - destruct (sealed l); exists []; reflexivity.
+  - destruct (ids_exist (ver l) ids); exists []; reflexivity.
+  - exists []; reflexivity.
+  - exists []; reflexivity.
+Qed.
+
+Lemma mrun_wlog : forall ops st, exists pre, wlog (mrun st ops) = pre ++ wlog st.
+Proof.
+  induction ops as [|o ops IH]; intros st; [exists []; reflexivity|].
+  cbn [mrun fold_left]. destruct (IH (mstep st o)) as (p1 & E1).
+  destruct (mstep_wlog st o) as (p2 & E2). exists (p1 ++ p2).
+  unfold mrun in E1. rewrite E1, E2. now rewrite app_assoc.
+Qed.
+
+Lemma wkinv_run k : forall ops st,
+  minv st -> wkinv k st -> mops_ok st ops = true -> wops_ok k st ops ->
+  alternating (kents k (wlog (mrun st ops))) = true ->
+  wkinv k (mrun st ops).
+Proof.
+  induction ops as [|o ops IH]; intros st M WK OK WO HA; [exact WK|].
+  cbn [mops_ok] in OK. apply andb_true_iff in OK. destruct OK as [O1 O2].
+  cbn [wops_ok] in WO. destruct WO as [W1 W2].
+  cbn [mrun fold_left] in *. apply IH; auto.
+  - now apply minv_step.
+  - apply wkinv_step; auto.
+    destruct (mrun_wlog ops (mstep st o)) as (pre & E). unfold mrun in E.
+    rewrite E, kents_app in HA. eapply alt_app_r; eauto.
+Qed.
+
+Lemma wkinv_init k : wkinv k minit.
+Proof.
+  split; [exact I|]. intros l L. cbn in L. inversion L; subst l. split; reflexivity.
+Qed.
+
+(** (stretch) Result 4.  A key [k] whose whole history (all writes, newest first) obeys the
+    single-delete discipline -- only values and weak tombstones, strictly alternating --
+    reads, at every snapshot at or above the seqno counter, exactly like the write log,
+    provided every compaction on the way took a contiguous part of [k]'s history
+    ([wcontig]).  Other keys may be written in any way (strong tombstones included). *)
+Theorem machine_weak_view : forall ops k,
+  mops_ok minit ops = true -> wops_ok k minit ops ->
+  let st := mrun minit ops in
+  alternating (kents k (wlog st)) = true ->
+  forall sv, latest (hist (hs st)) = Some sv ->
+  forall S, ctr (hs st) <= S ->
+  spec_get (content sv) k S = spec_get (wlog st) k S.
+Proof.
+  intros ops k OK WO st HA sv L S HS.
+  pose proof (machine_minv ops OK) as M. fold st in M.
+  assert (wkinv k st) as [D WK]
+      by (apply wkinv_run; auto using minv_init, wkinv_init).
+  destruct (WK sv L) as [A1 A2]. pose proof M as [Ih Iw (l & L0 & Hl)].
+  rewrite L in L0. inversion L0; subst l. clear L0.
+  unfold spec_get.
+  rewrite (newest_ksort k S (content sv)); [|eapply minv_latest_ndik; eauto|].
+  2:{ intros e He _. pose proof (linv_content_seq _ _ _ Iw Hl He). lia. }
+  rewrite (newest_ksort k S (wlog st)); [|apply NoDup_seq_ndik; apply Iw|].
+  2:{ intros e He _. pose proof (wi_seq _ Iw e He). lia. }
+  rewrite (ksort_desc k (wlog st) (wi_nodup _ Iw) D).
+  now apply hk_visible.
+Qed.
+
+Corollary machine_weak_reads : forall ops k,
+  mops_ok minit ops = true -> wops_ok k minit ops ->
+  let st := mrun minit ops in
+  alternating (kents k (wlog st)) = true ->
+  forall sv, latest (hist (hs st)) = Some sv ->
+  forall flt, filter_sound flt sv ->
+  sv_get flt sv k SEQ_MAX = spec_get (wlog st) k SEQ_MAX.
+Proof.
+  intros ops k OK WO st HA sv L flt Hf.
+  destruct (machine_inv ops OK) as (_ & _ & Hsv & _ & _ & _ & Hlim). fold st in Hsv, Hlim.
+  destruct (Hsv sv L) as (CI & _).
+  rewrite (sv_get_sound flt sv CI Hf). apply machine_weak_view; auto.
+  pose proof SEQ_LIMIT_le_MAX. fold st. lia.
+Qed.
+
+(** a decidable form of the compaction obligation, for concrete runs *)
+Definition wcontig_b (k : key) (v : version) (ids : list N) (dest : nat) : bool :=
+  let Ik := kents k (compact_merged v ids) in
+  forallb (fun t =>
+    forallb (fun r =>
+      negb (key_eqb (ukey r) k)
+      || forallb (fun i => seq i <? seq r) Ik
+      || (negb (is_last_level dest) && forallb (fun i => seq r <? seq i) Ik))
+      (ents t))
+    (kept ids (all_tables v)).
+
+Definition wop_ok_b (k : key) (st : mstate) (o : mop) : bool :=
+  match o with
+  | MCompact ids dest W cuts =>
+      match latest (hist (hs st)) with
+      | Some l => wcontig_b k (ver l) ids dest
+      | None => true
+      end
+  | _ => true
+  end.
+
+Fixpoint wops_ok_b (k : key) (st : mstate) (ops : list mop) : bool :=
+  match ops with
+  | [] => true
+  | o :: ops' => wop_ok_b k st o && wops_ok_b k (mstep st o) ops'
+  end.
+
+Lemma wcontig_b_sound k v ids dest : wcontig_b k v ids dest = true -> wcontig k v ids dest.
+Proof.
+  unfold wcontig_b, wcontig. intros H t r Ht Hr Kr. rewrite forallb_forall in H.
+  specialize (H t Ht). rewrite forallb_forall in H. specialize (H r Hr).
+  apply orb_true_iff in H. destruct H as [H|H].
+  - apply orb_true_iff in H. destruct H as [H|H].
+    + apply negb_true_iff in H. key_prop. contradiction.
+    + left. intros i Hi Ki. rewrite forallb_forall in H. apply N.ltb_lt. apply H.
+      apply kents_in. auto.
+  - apply andb_true_iff in H. destruct H as [H1 H2]. right.
+    split; [now apply negb_true_iff in H1|].
+    intros i Hi Ki. rewrite forallb_forall in H2. apply N.ltb_lt. apply H2. apply kents_in. auto.
+Qed.
+
+Lemma wops_ok_b_sound k : forall ops st, wops_ok_b k st ops = true -> wops_ok k st ops.
+Proof.
+  induction ops as [|o ops IH]; intros st H; [exact I|].
+  cbn [wops_ok_b] in H. apply andb_true_iff in H. destruct H as [H1 H2].
+  split; [|auto]. destruct o; cbn [wop_ok]; auto.
+  intros l L. cbn [wop_ok_b] in H1. rewrite L in H1. now apply wcontig_b_sound.
+Qed.
+
+
+(** ** 13.6 examples *)
+Module WeakExample.
+  Definition ka : key := [97].  Definition kb : key := [98].
+
+  (** [ka]: put, single-delete, put, single-delete (disciplined); [kb]: put, delete, put;
+      flushes, a compaction of two tables into level 1 and one of everything into the
+      last level (where all of [ka] cancels out) *)
+  Definition ops : list mop :=
+    [ MWrite ka Value [1]; MWrite kb Value [2]; MRotate; MFlush 0 [];
+      MWrite ka WeakTomb []; MWrite kb Tomb []; MRotate; MFlush 0 [];
+      MWrite ka Value [3]; MWrite kb Value [4]; MRotate; MFlush 0 [];
+      MCompact [0;1] 1 100 [];
+      MWrite ka WeakTomb []; MRotate; MFlush 0 [];
+      MCompact [2;3;4] 6 100 [] ].
+
+  Example hyps :
+    mops_ok minit ops = true /\ wops_ok_b ka minit ops = true /\
+    alternating (kents ka (wlog (mrun minit ops))) = true.
+  Proof. vm_compute. auto. Qed.
+
+  Example reads :
+    map (mget (fun _ _ => true) (mrun minit ops)) [ka; kb] = [None; Some (mkE kb 7 Value [4])].
+  Proof. vm_compute; reflexivity. Qed.
+
+  Example read_by_theorem : forall sv, latest (hist (hs (mrun minit ops))) = Some sv ->
+    sv_get (fun _ _ => true) sv ka SEQ_MAX = spec_get (wlog (mrun minit ops)) ka SEQ_MAX.
+  Proof.
+    intros sv L. destruct hyps as (H1 & H2 & H3).
+    exact (machine_weak_reads ops ka H1 (wops_ok_b_sound ka _ _ H2) H3 sv L _
+             (filter_sound_true sv)).
+  Qed.
+
+  (** The contiguity obligation is needed.  [ka]: put@0 (flushed, moved to the last level),
+      single-delete@2, put@3 (flushed), then the table with @3/@2 is compacted ALONE into
+      the last level, as a second run next to the table with @0: every [mop_ok] condition
+      holds (the key does not vanish, so [evict_ok] is silent), but the weak tombstone @2
+      is collected while the value @0 it cancelled stays.  After one more single-delete
+      and a major compaction the value @0 is visible again. *)
+  Definition bad_ops : list mop :=
+    [ MWrite ka Value [1]; MRotate; MFlush 0 []; MMove [0] 6;
+      MWrite ka WeakTomb []; MWrite ka Value [2]; MRotate; MFlush 0 [];
+      MCompact [1] 6 100 [];
+      MWrite ka WeakTomb []; MRotate; MFlush 0 [];
+      MCompact [0;2;3] 6 100 [] ].
+
+  Theorem weak_without_contiguity_refuted :
+    mops_ok minit bad_ops = true /\
+    alternating (kents ka (wlog (mrun minit bad_ops))) = true /\
+    wops_ok_b ka minit bad_ops = false /\
+    mget (fun _ _ => true) (mrun minit bad_ops) ka = Some (mkE ka 0 Value [1]) /\
+    spec_get (wlog (mrun minit bad_ops)) ka SEQ_MAX = None.
+  Proof. vm_compute. auto. Qed.
+End WeakExample.
+
+(** * 14. Point reads of a mixed workload *)
+
+(** Every key that is either never weak-deleted, or weak-deleted under the single-delete
+    discipline (with contiguous compactions), is read correctly at the newest snapshot by
+    the real read path with any sound filter.  Keys of both kinds may coexist. *)
+Theorem machine_reads_mixed : forall ops,
+  mops_ok minit ops = true ->
+  let st := mrun minit ops in
+  forall sv, latest (hist (hs st)) = Some sv ->
+  forall flt, filter_sound flt sv ->
+  forall k,
+    ((forall t v, In (MWrite k t v) ops -> t <> WeakTomb) \/
+     (wops_ok k minit ops /\ alternating (kents k (wlog st)) = true)) ->
+    sv_get flt sv k SEQ_MAX = spec_get (wlog st) k SEQ_MAX.
+Proof.
+  intros ops OK st sv L flt Hf k [NW|[WO HA]].
+  - destruct (machine_inv ops OK) as (_ & _ & Hsv & _ & _ & _ & Hlim). fold st in Hsv, Hlim.
+    destruct (Hsv sv L) as (CI & _).
+    rewrite (sv_get_sound flt sv CI Hf). apply machine_top_view_key; auto.
+    pose proof SEQ_LIMIT_le_MAX. fold st. lia.
+  - now apply machine_weak_reads.
+Qed.
+
+(** * 14b. Replay of the unit tests of src/table/multi_writer.rs
+    (the tests pass explicit seqnos; here the machine hands them out, 0, 1, 2, ...;
+    [tree.len] = number of live keys; the MultiWriter's size-driven rotation requests are
+    the [cuts], and a request inside a user key is not honoured) *)
+Module CrateTests.
+  Definition ka : key := [97].  Definition kb : key := [98].  Definition kc : key := [99].
+  Definition table_count (st : mstate) : nat :=
+    match mlatest st with Some sv => length (all_tables (ver sv)) | None => O end.
+  Definition live_keys (st : mstate) : nat :=
+    match mlatest st with
+    | Some sv => length (spec_range (content sv) Unb Unb SEQ_MAX)
+    | None => O
+    end.
+
+  (* table_multi_writer_same_key_norotate: five versions of one key stay in one table,
+     at flush and at major compaction, wherever a rotation is requested *)
+  Definition t1_ops : list mop :=
+    [ MWrite ka Value [1]; MWrite ka Value [2]; MWrite ka Value [3]; MWrite ka Value [4];
+      MWrite ka Value [5]; MRotate; MFlush 0 [] ].
+  Example same_key_norotate :
+    mops_ok minit t1_ops = true /\
+    let st := mrun minit t1_ops in
+    (table_count st, live_keys st) = (1%nat, 1%nat) /\
+    (forall l, mlatest st = Some l ->
+       length (compact_out 0 6 (ver l) [0]) = 5%nat /\
+       forallb (fun c => negb (cuts_ok [c] (compact_out 0 6 (ver l) [0])))
+               [1%nat; 2%nat; 3%nat; 4%nat] = true) /\
+    mop_ok st (MCompact [0] 6 0 []) = true /\
+    let st' := mstep st (MCompact [0] 6 0 []) in
+    (table_count st', live_keys st') = (1%nat, 1%nat).
+  Proof.
+    split; [vm_compute; reflexivity|]. split; [vm_compute; reflexivity|]. split.
+    - intros l L. vm_compute in L. inversion L; subst l. vm_compute. auto.
+    - vm_compute. auto.
+  Qed.
+
+  (* table_multi_writer_same_key_norotate_2: a (3 versions), b, c (2 versions): one table
+     after the flush, three after a major compaction that rotates at every key change *)
+  Definition t2_ops : list mop :=
+    [ MWrite ka Value [1]; MWrite ka Value [1]; MWrite ka Value [1]; MWrite kb Value [1];
+      MWrite kc Value [1]; MWrite kc Value [1]; MRotate; MFlush 0 [] ].
+  Example same_key_norotate_2 :
+    mops_ok minit t2_ops = true /\
+    let st := mrun minit t2_ops in
+    (table_count st, live_keys st) = (1%nat, 3%nat) /\
+    mop_ok st (MCompact [0] 6 0 [3%nat; 1%nat]) = true /\
+    mop_ok st (MCompact [0] 6 0 [2%nat]) = false /\
+    let st' := mstep st (MCompact [0] 6 0 [3%nat; 1%nat]) in
+    (table_count st', live_keys st') = (3%nat, 3%nat).
+  Proof. vm_compute. auto. Qed.
+End CrateTests.
+
+(** * 15. Assumptions *)
+Print Assumptions build_tables_ok.
+Print Assumptions machine_minv.
+Print Assumptions machine_inv.
+Print Assumptions machine_top_view_key.
+Print Assumptions machine_top_view_gen.
+Print Assumptions machine_top_view.
+Print Assumptions machine_top_view_prefix.
+Print Assumptions machine_point_reads.
+Print Assumptions machine_mget.
+Print Assumptions major_choice_ok.
+Print Assumptions machine_weak_view.
+Print Assumptions machine_weak_reads.
+Print Assumptions machine_reads_mixed.
+Print Assumptions EvictExample.evict_ok_dest_level_only_refuted.
+Print Assumptions WeakExample.weak_without_contiguity_refuted.
